@@ -2,16 +2,16 @@
   MultiProofs.C13 — property C13: the BLAS adaptor gives the mathematical result for every accepted view combination.
 
   The dispatch chains are the REGENERATED definitions of MultiModel.Gen.BlasDispatch (tools/gen_blas_dispatch.py, from the
-  current /repo); the semantics of a call is the reference BLAS of MultiModel.Blas.  Structure, per chain:
+  current /repo); the semantics of a call is the reference BLAS of MultiModel.Blas.  This file is written for the source
+  WITH the repairs fixes/C13-*.patch applied (legal leading dimensions, the corrected / removed leaves, the added
+  assertions): every leaf of `gemm_n`, `gemv_n`, `syrk`, `herk` is then correct and the statements are FULL.  Structure, per chain:
 
-    * `<chain>_branch_<n>_ok`   one lemma per generated leaf that is correct: under the view invariants (`GemmShapes`, …), the
-                                leaf's guard and the stated domain `Dom`, the call of the leaf satisfies the certificate
-                                (`GemmOK`, …), hence is legal and computes the mathematical result, changing only the output;
-    * `finding_<chain>_branch_<n>`  for every leaf that is wrong (or wrong outside its domain): a concrete operand tuple inside
-                                the view invariants on which the leaf's call is illegal or its post-state is not the product;
-    * `<op>_correct_partial`    the assembly by case analysis (`<chain>.elim`, generated): whenever the chain issues a call
-                                from a leaf inside its certified domain, the post-state is the specification.  The FULL
-                                statement (no domain restriction) is FALSE for the current code — see the findings.
+    * `<chain>_branch_<n>_ok`   one lemma per generated leaf: under the view invariants and the leaf's guard, the call of the
+                                leaf satisfies the certificate (`GemmOK`, …), hence is legal and computes the mathematical result,
+                                changing only the output;
+    * `<op>_correct`            the assembly by case analysis (`<chain>.elim`, generated).
+  Still partial: `trsm` (legality of every call is proved, the solution is validated by the differential run only),
+  `rejected_is_inexpressible` (the library over-rejects, which C13 permits).
 -/
 import MultiModel.Blas
 import MultiModel.BlasFront
@@ -30,156 +30,27 @@ open Multi.Blas Multi.Blas.Gen
 
 variable {R : Type} [CRing R]
 
-/-- discharges "the call of this leaf satisfies the certificate": unfolds the certificate to linear integer arithmetic -/
+/-- discharges "the call of this leaf satisfies the certificate": unfolds the certificate to linear integer arithmetic
+    (`legalLd` = max is unfolded last, omega understands max) -/
 macro "gemm_branch" : tactic => `(tactic| (
   refine ⟨_, rfl, ?_⟩
   unfold GemmOK
   rw [illegal_none_iff]
   simp only [GemmCall.Legal, OutIs, OpIs, Mat.lm, Mat.lmT, isTrans, Mat.Lin, Mat.RowOK, Mat.ColOK] at *
-  simp (config := {decide := true}) only [true_and, and_true, true_or, or_true, if_true, if_false, false_and, and_false, false_or, or_false, *] at *
+  simp (config := {decide := true}) only [true_and, and_true, true_or, or_true, if_true, if_false, false_and, and_false, false_or, or_false, true_implies, *] at *
+  simp only [legalLd] at *
   omega))
 
 macro "wf_dec" : tactic => `(tactic| exact ⟨by decide, by decide, by decide, by decide, by decide⟩)
 macro "shapes_dec" : tactic => `(tactic| exact ⟨by wf_dec, by wf_dec, by wf_dec, by decide, by decide, by decide⟩)
 
-/-- memory used by the concrete counterexamples: distinct small values -/
-def wmem : Mem Int := fun a => a * a + 1
-/-- the same over the Gaussian integers -/
-def zmem : Mem GInt := fun a => ⟨a * a + 1, 2 * a + 3⟩
-
-/-! ## gemm_n, overload for non-conjugated A and B (gemm.hpp:45-86) -/
-section nn
+/-! ## gemm_n (gemm.hpp), all four overloads -/
+section gemm
 variable (alpha beta : R) (a b c : Mat)
 
-/-- hypotheses common to the leaves: the view invariants (in linear form), fitting sizes, no conjugation -/
-structure NNHyp (a b c : Mat) : Prop where
-  la : a.Lin
-  lb : b.Lin
-  lc : c.Lin
-  hm : a.n0 = c.n0
-  hk : a.n1 = b.n0
-  hn : b.n1 = c.n1
-  ha : a.cj = false
-  hb : b.cj = false
-  hc : c.cj = false
-
-theorem NNHyp.of {a b c : Mat} (hs : GemmShapes a b c) (ha : a.cj = false) (hb : b.cj = false) (hc : c.cj = false) : NNHyp a b c :=
-  ⟨hs.wa.lin, hs.wb.lin, hs.wc.lin, hs.m, hs.k, hs.n, ha, hb, hc⟩
-
-/-- gemm.hpp:80 — A, B, C column-major: C = A·B directly -/
-theorem gemm_nn_branch_2_ok (H : NNHyp a b c) (h : gemm_n_nn.guard_2 a b c) (d : a.ColOK ∧ b.ColOK ∧ c.ColOK) :
-    ∃ g, gemm_n_nn.call_2 alpha beta a b c = .gemm g ∧ GemmOK g alpha beta a b c := by
-  obtain ⟨la, lb, lc, hm, hk, hn, ha, hb, hc⟩ := H; unfold gemm_n_nn.guard_2 at h; gemm_branch
-
-/-- gemm.hpp:79 — column-major, B a single column -/
-theorem gemm_nn_branch_3_ok (H : NNHyp a b c) (h : gemm_n_nn.guard_3 a b c) (d : a.ColOK ∧ b.ColOK) :
-    ∃ g, gemm_n_nn.call_3 alpha beta a b c = .gemm g ∧ GemmOK g alpha beta a b c := by
-  obtain ⟨la, lb, lc, hm, hk, hn, ha, hb, hc⟩ := H; unfold gemm_n_nn.guard_3 at h; gemm_branch
-
-/-- gemm.hpp:82 — A, B column-major, C row-major: Cᵀ = Bᵀ·Aᵀ with both operands transposed -/
-theorem gemm_nn_branch_4_ok (H : NNHyp a b c) (h : gemm_n_nn.guard_4 a b c) (d : a.ColOK ∧ b.ColOK ∧ c.RowOK) :
-    ∃ g, gemm_n_nn.call_4 alpha beta a b c = .gemm g ∧ GemmOK g alpha beta a b c := by
-  obtain ⟨la, lb, lc, hm, hk, hn, ha, hb, hc⟩ := H; unfold gemm_n_nn.guard_4 at h; gemm_branch
-
-/-- gemm.hpp:68 — A column-major, B row-major, C column-major -/
-theorem gemm_nn_branch_5_ok (H : NNHyp a b c) (h : gemm_n_nn.guard_5 a b c) (d : a.ColOK ∧ b.RowOK ∧ c.ColOK) :
-    ∃ g, gemm_n_nn.call_5 alpha beta a b c = .gemm g ∧ GemmOK g alpha beta a b c := by
-  obtain ⟨la, lb, lc, hm, hk, hn, ha, hb, hc⟩ := H; unfold gemm_n_nn.guard_5 at h; gemm_branch
-
-/-- gemm.hpp:65 — A column-major, B and C row-major -/
-theorem gemm_nn_branch_7_ok (H : NNHyp a b c) (h : gemm_n_nn.guard_7 a b c) (d : a.ColOK ∧ b.RowOK ∧ c.RowOK) :
-    ∃ g, gemm_n_nn.call_7 alpha beta a b c = .gemm g ∧ GemmOK g alpha beta a b c := by
-  obtain ⟨la, lb, lc, hm, hk, hn, ha, hb, hc⟩ := H; unfold gemm_n_nn.guard_7 at h; gemm_branch
-
-/-- gemm.hpp:64 — the `a_count==1` variant of the previous leaf passes ldc = a_count = 1: legal only for a single column of C
-    (for more columns core::gemm throws "failed 'ldc >= max(1, m)'" in every build: rejected, not miscomputed) -/
-theorem gemm_nn_branch_8_ok (H : NNHyp a b c) (h : gemm_n_nn.guard_8 a b c) (d : a.ColOK ∧ b.RowOK ∧ c.n1 ≤ 1) :
-    ∃ g, gemm_n_nn.call_8 alpha beta a b c = .gemm g ∧ GemmOK g alpha beta a b c := by
-  obtain ⟨la, lb, lc, hm, hk, hn, ha, hb, hc⟩ := H; unfold gemm_n_nn.guard_8 at h; gemm_branch
-
-/-- gemm.hpp:70 — 1×k times k×1: correct; with k = 0 the leading dimension `(*a_first).size()` = 0 is illegal for the
-    reference BLAS (OpenBLAS accepts it) -/
-theorem gemm_nn_branch_10_ok (H : NNHyp a b c) (h : gemm_n_nn.guard_10 a b c) (d : 1 ≤ a.n1) :
-    ∃ g, gemm_n_nn.call_10 alpha beta a b c = .gemm g ∧ GemmOK g alpha beta a b c := by
-  obtain ⟨la, lb, lc, hm, hk, hn, ha, hb, hc⟩ := H; unfold gemm_n_nn.guard_10 at h; gemm_branch
-
-/-- gemm.hpp:77 — A row-major, B column-major, C row-major -/
-theorem gemm_nn_branch_13_ok (H : NNHyp a b c) (h : gemm_n_nn.guard_13 a b c) (d : a.RowOK ∧ b.ColOK ∧ c.RowOK) :
-    ∃ g, gemm_n_nn.call_13 alpha beta a b c = .gemm g ∧ GemmOK g alpha beta a b c := by
-  obtain ⟨la, lb, lc, hm, hk, hn, ha, hb, hc⟩ := H; unfold gemm_n_nn.guard_13 at h; gemm_branch
-
-/-- gemm.hpp:62 — A, B row-major, C column-major -/
-theorem gemm_nn_branch_15_ok (H : NNHyp a b c) (h : gemm_n_nn.guard_15 a b c) (d : a.RowOK ∧ b.RowOK ∧ c.ColOK) :
-    ∃ g, gemm_n_nn.call_15 alpha beta a b c = .gemm g ∧ GemmOK g alpha beta a b c := by
-  obtain ⟨la, lb, lc, hm, hk, hn, ha, hb, hc⟩ := H; unfold gemm_n_nn.guard_15 at h; gemm_branch
-
-/-- gemm.hpp:59 — the main leaf: A, B, C row-major, Cᵀ = Bᵀ·Aᵀ -/
-theorem gemm_nn_branch_17_ok (H : NNHyp a b c) (h : gemm_n_nn.guard_17 a b c) (d : a.RowOK ∧ b.RowOK ∧ c.RowOK) :
-    ∃ g, gemm_n_nn.call_17 alpha beta a b c = .gemm g ∧ GemmOK g alpha beta a b c := by
-  obtain ⟨la, lb, lc, hm, hk, hn, ha, hb, hc⟩ := H; unfold gemm_n_nn.guard_17 at h; gemm_branch
-
-/-- gemm.hpp:57 — 1×k times k×1, everything row-major: passes `(*b_first).size()` = 1 as the leading dimension of B:
-    right only when B is contiguous (stride 1) or k ≤ 1 -/
-theorem gemm_nn_branch_18_ok (H : NNHyp a b c) (h : gemm_n_nn.guard_18 a b c) (d : (b.s0 = 1 ∨ a.n1 ≤ 1) ∧ 1 ≤ a.n1) :
-    ∃ g, gemm_n_nn.call_18 alpha beta a b c = .gemm g ∧ GemmOK g alpha beta a b c := by
-  obtain ⟨la, lb, lc, hm, hk, hn, ha, hb, hc⟩ := H; unfold gemm_n_nn.guard_18 at h; gemm_branch
-
-/-- gemm.hpp:58 — 1×k times k×n, row-major -/
-theorem gemm_nn_branch_19_ok (H : NNHyp a b c) (h : gemm_n_nn.guard_19 a b c) (d : b.RowOK ∧ 1 ≤ a.n1 ∧ 1 ≤ b.n1) :
-    ∃ g, gemm_n_nn.call_19 alpha beta a b c = .gemm g ∧ GemmOK g alpha beta a b c := by
-  obtain ⟨la, lb, lc, hm, hk, hn, ha, hb, hc⟩ := H; unfold gemm_n_nn.guard_19 at h; gemm_branch
-
-/-- the domain in which each leaf of `gemm_n_nn` is certified (False: the leaf is wrong, see `finding_gemm_nn_branch_*`) -/
-def gemmNNDom (t : Nat) (a b c : Mat) : Prop :=
-  match t with
-  | 2 => a.ColOK ∧ b.ColOK ∧ c.ColOK
-  | 3 => a.ColOK ∧ b.ColOK
-  | 4 => a.ColOK ∧ b.ColOK ∧ c.RowOK
-  | 5 => a.ColOK ∧ b.RowOK ∧ c.ColOK
-  | 7 => a.ColOK ∧ b.RowOK ∧ c.RowOK
-  | 8 => a.ColOK ∧ b.RowOK ∧ c.n1 ≤ 1
-  | 10 => 1 ≤ a.n1
-  | 13 => a.RowOK ∧ b.ColOK ∧ c.RowOK
-  | 15 => a.RowOK ∧ b.RowOK ∧ c.ColOK
-  | 17 => a.RowOK ∧ b.RowOK ∧ c.RowOK
-  | 18 => (b.s0 = 1 ∨ a.n1 ≤ 1) ∧ 1 ≤ a.n1
-  | 19 => b.RowOK ∧ 1 ≤ a.n1 ∧ 1 ≤ b.n1
-  | _ => False
-
-end nn
-
-/-- assembly for the non-conjugated overload: every call issued from a leaf inside its certified domain satisfies the certificate -/
-theorem gemm_nn_certified {nd : Bool} {alpha beta : R} {a b c : Mat} {t : Nat} {cl : Call R}
-    (H : NNHyp a b c) (h : gemm_n_nn nd alpha beta a b c = .call t cl) (hd : gemmNNDom t a b c) :
-    ∃ g, cl = .gemm g ∧ GemmOK g alpha beta a b c := by
-  revert hd
-  refine gemm_n_nn.elim h (fun t cl => gemmNNDom t a b c → ∃ g, cl = .gemm g ∧ GemmOK g alpha beta a b c)
-    ?_ ?_ ?_ ?_ ?_ ?_ ?_ ?_ ?_ ?_ ?_ ?_ ?_ ?_ ?_ ?_ ?_ ?_
-  · exact fun g d => gemm_nn_branch_2_ok alpha beta a b c H g d
-  · exact fun g d => gemm_nn_branch_3_ok alpha beta a b c H g d
-  · exact fun g d => gemm_nn_branch_4_ok alpha beta a b c H g d
-  · exact fun g d => gemm_nn_branch_5_ok alpha beta a b c H g d
-  · exact fun _ d => d.elim
-  · exact fun g d => gemm_nn_branch_7_ok alpha beta a b c H g d
-  · exact fun g d => gemm_nn_branch_8_ok alpha beta a b c H g d
-  · exact fun _ d => d.elim
-  · exact fun g d => gemm_nn_branch_10_ok alpha beta a b c H g d
-  · exact fun _ d => d.elim
-  · exact fun _ d => d.elim
-  · exact fun g d => gemm_nn_branch_13_ok alpha beta a b c H g d
-  · exact fun _ d => d.elim
-  · exact fun g d => gemm_nn_branch_15_ok alpha beta a b c H g d
-  · exact fun _ d => d.elim
-  · exact fun g d => gemm_nn_branch_17_ok alpha beta a b c H g d
-  · exact fun g d => gemm_nn_branch_18_ok alpha beta a b c H g d
-  · exact fun g d => gemm_nn_branch_19_ok alpha beta a b c H g d
-
-/-! ## gemm_n, overloads with a conjugated operand (gemm.hpp:88-148) -/
-section conj
-variable (alpha beta : R) (a b c : Mat)
-
-/-- hypotheses for an overload: invariants, fitting sizes, the conjugation pattern the overload is selected for -/
-structure CHyp (ca cb : Bool) (a b c : Mat) : Prop where
+/-- hypotheses common to the leaves: the view invariants (in linear form), fitting sizes, the conjugation pattern the
+    overload is selected for -/
+structure GHyp (ca cb : Bool) (a b c : Mat) : Prop where
   la : a.Lin
   lb : b.Lin
   lc : c.Lin
@@ -190,91 +61,121 @@ structure CHyp (ca cb : Bool) (a b c : Mat) : Prop where
   hb : b.cj = cb
   hc : c.cj = false
 
-/-- gemm.hpp:103 — A·conj(B) with A row-major, B column-major, C row-major: Cᵀ = Bᴴ·Aᵀ -/
-theorem gemm_nc_branch_5_ok (H : CHyp false true a b c) (h : gemm_n_nc.guard_5 a b c) (d : a.RowOK ∧ b.ColOK ∧ c.RowOK) :
-    ∃ g, gemm_n_nc.call_5 alpha beta a b c = .gemm g ∧ GemmOK g alpha beta a b c := by
-  obtain ⟨la, lb, lc, hm, hk, hn, ha, hb, hc⟩ := H; unfold gemm_n_nc.guard_5 at h; gemm_branch
+theorem GHyp.of {a b c : Mat} {ca cb : Bool} (hs : GemmShapes a b c) (ha : a.cj = ca) (hb : b.cj = cb) (hc : c.cj = false) : GHyp ca cb a b c :=
+  ⟨hs.wa.lin, hs.wb.lin, hs.wc.lin, hs.m, hs.k, hs.n, ha, hb, hc⟩
 
-/-- gemm.hpp:128 — conj(A)·B with A column-major, B and C row-major: Cᵀ = Bᵀ·Aᴴ -/
-theorem gemm_cn_branch_2_ok (H : CHyp true false a b c) (h : gemm_n_cn.guard_2 a b c) (d : a.ColOK ∧ b.RowOK ∧ c.RowOK) :
+/-- gemm.hpp:69 — A, B, C column-major: C = A·B directly -/
+theorem gemm_nn_branch_2_ok (H : GHyp false false a b c) (h : gemm_n_nn.guard_2 a b c) :
+    ∃ g, gemm_n_nn.call_2 alpha beta a b c = .gemm g ∧ GemmOK g alpha beta a b c := by
+  obtain ⟨la, lb, lc, hm, hk, hn, ha, hb, hc⟩ := H; unfold gemm_n_nn.guard_2 at h; gemm_branch
+
+/-- gemm.hpp:71 — A, B column-major, C row-major: Cᵀ = Bᵀ·Aᵀ, both operands transposed -/
+theorem gemm_nn_branch_3_ok (H : GHyp false false a b c) (h : gemm_n_nn.guard_3 a b c) :
+    ∃ g, gemm_n_nn.call_3 alpha beta a b c = .gemm g ∧ GemmOK g alpha beta a b c := by
+  obtain ⟨la, lb, lc, hm, hk, hn, ha, hb, hc⟩ := H; unfold gemm_n_nn.guard_3 at h; gemm_branch
+
+/-- gemm.hpp:63 — A column-major, B row-major, C column-major -/
+theorem gemm_nn_branch_4_ok (H : GHyp false false a b c) (h : gemm_n_nn.guard_4 a b c) :
+    ∃ g, gemm_n_nn.call_4 alpha beta a b c = .gemm g ∧ GemmOK g alpha beta a b c := by
+  obtain ⟨la, lb, lc, hm, hk, hn, ha, hb, hc⟩ := H; unfold gemm_n_nn.guard_4 at h; gemm_branch
+
+/-- gemm.hpp:61 — A column-major, B and C row-major -/
+theorem gemm_nn_branch_5_ok (H : GHyp false false a b c) (h : gemm_n_nn.guard_5 a b c) :
+    ∃ g, gemm_n_nn.call_5 alpha beta a b c = .gemm g ∧ GemmOK g alpha beta a b c := by
+  obtain ⟨la, lb, lc, hm, hk, hn, ha, hb, hc⟩ := H; unfold gemm_n_nn.guard_5 at h; gemm_branch
+
+/-- gemm.hpp:65 — A row-major, B and C column-major (the leaf that exchanged m and n before the repair) -/
+theorem gemm_nn_branch_6_ok (H : GHyp false false a b c) (h : gemm_n_nn.guard_6 a b c) :
+    ∃ g, gemm_n_nn.call_6 alpha beta a b c = .gemm g ∧ GemmOK g alpha beta a b c := by
+  obtain ⟨la, lb, lc, hm, hk, hn, ha, hb, hc⟩ := H; unfold gemm_n_nn.guard_6 at h; gemm_branch
+
+/-- gemm.hpp:67 — A row-major, B column-major, C row-major -/
+theorem gemm_nn_branch_7_ok (H : GHyp false false a b c) (h : gemm_n_nn.guard_7 a b c) :
+    ∃ g, gemm_n_nn.call_7 alpha beta a b c = .gemm g ∧ GemmOK g alpha beta a b c := by
+  obtain ⟨la, lb, lc, hm, hk, hn, ha, hb, hc⟩ := H; unfold gemm_n_nn.guard_7 at h; gemm_branch
+
+/-- gemm.hpp:59 — A, B row-major, C column-major -/
+theorem gemm_nn_branch_8_ok (H : GHyp false false a b c) (h : gemm_n_nn.guard_8 a b c) :
+    ∃ g, gemm_n_nn.call_8 alpha beta a b c = .gemm g ∧ GemmOK g alpha beta a b c := by
+  obtain ⟨la, lb, lc, hm, hk, hn, ha, hb, hc⟩ := H; unfold gemm_n_nn.guard_8 at h; gemm_branch
+
+/-- gemm.hpp:57 — the main leaf: A, B, C row-major, Cᵀ = Bᵀ·Aᵀ -/
+theorem gemm_nn_branch_9_ok (H : GHyp false false a b c) (h : gemm_n_nn.guard_9 a b c) :
+    ∃ g, gemm_n_nn.call_9 alpha beta a b c = .gemm g ∧ GemmOK g alpha beta a b c := by
+  obtain ⟨la, lb, lc, hm, hk, hn, ha, hb, hc⟩ := H; unfold gemm_n_nn.guard_9 at h; gemm_branch
+
+/-- gemm.hpp:91 — A·conj(B), A and B column-major, C row-major: Cᵀ = Bᴴ·Aᵀ -/
+theorem gemm_nc_branch_2_ok (H : GHyp false true a b c) (h : gemm_n_nc.guard_2 a b c) :
+    ∃ g, gemm_n_nc.call_2 alpha beta a b c = .gemm g ∧ GemmOK g alpha beta a b c := by
+  obtain ⟨la, lb, lc, hm, hk, hn, ha, hb, hc⟩ := H; unfold gemm_n_nc.guard_2 at h; gemm_branch
+
+/-- gemm.hpp:89 — A·conj(B), A row-major, B column-major, C row-major -/
+theorem gemm_nc_branch_3_ok (H : GHyp false true a b c) (h : gemm_n_nc.guard_3 a b c) :
+    ∃ g, gemm_n_nc.call_3 alpha beta a b c = .gemm g ∧ GemmOK g alpha beta a b c := by
+  obtain ⟨la, lb, lc, hm, hk, hn, ha, hb, hc⟩ := H; unfold gemm_n_nc.guard_3 at h; gemm_branch
+
+/-- gemm.hpp:109 — conj(A)·B, A column-major, B and C row-major: Cᵀ = Bᵀ·Aᴴ -/
+theorem gemm_cn_branch_2_ok (H : GHyp true false a b c) (h : gemm_n_cn.guard_2 a b c) :
     ∃ g, gemm_n_cn.call_2 alpha beta a b c = .gemm g ∧ GemmOK g alpha beta a b c := by
   obtain ⟨la, lb, lc, hm, hk, hn, ha, hb, hc⟩ := H; unfold gemm_n_cn.guard_2 at h; gemm_branch
 
-/-- gemm.hpp:127 — the `a_count==1` variant passes ldc = `(*a_first).size()` = k: legal only when n ≤ k
-    (otherwise core::gemm throws "failed 'ldc >= max(1, m)'": rejected) -/
-theorem gemm_cn_branch_3_ok (H : CHyp true false a b c) (h : gemm_n_cn.guard_3 a b c) (d : a.ColOK ∧ b.RowOK ∧ c.n1 ≤ a.n1 ∧ 1 ≤ a.n1) :
-    ∃ g, gemm_n_cn.call_3 alpha beta a b c = .gemm g ∧ GemmOK g alpha beta a b c := by
-  obtain ⟨la, lb, lc, hm, hk, hn, ha, hb, hc⟩ := H; unfold gemm_n_cn.guard_3 at h; gemm_branch
+/-- gemm.hpp:126 — conj(A)·conj(B), A and B column-major, C row-major: Cᵀ = Bᴴ·Aᴴ -/
+theorem gemm_cc_branch_2_ok (H : GHyp true true a b c) (h : gemm_n_cc.guard_2 a b c) :
+    ∃ g, gemm_n_cc.call_2 alpha beta a b c = .gemm g ∧ GemmOK g alpha beta a b c := by
+  obtain ⟨la, lb, lc, hm, hk, hn, ha, hb, hc⟩ := H; unfold gemm_n_cc.guard_2 at h; gemm_branch
 
-def gemmNCDom (t : Nat) (a b c : Mat) : Prop :=
-  match t with
-  | 5 => a.RowOK ∧ b.ColOK ∧ c.RowOK
-  | _ => False     -- 2, 3, 4, 6, 7: wrong (finding_gemm_nc_branch_*)
+end gemm
 
-def gemmCNDom (t : Nat) (a b c : Mat) : Prop :=
-  match t with
-  | 2 => a.ColOK ∧ b.RowOK ∧ c.RowOK
-  | 3 => a.ColOK ∧ b.RowOK ∧ c.n1 ≤ a.n1 ∧ 1 ≤ a.n1
-  | _ => False
-
-/-- the only leaf of the (conj A, conj B) overload is wrong (finding_gemm_cc_branch_2) -/
-def gemmCCDom (_t : Nat) (_a _b _c : Mat) : Prop := False
-
-end conj
+theorem gemm_nn_certified {nd : Bool} {alpha beta : R} {a b c : Mat} {t : Nat} {cl : Call R}
+    (H : GHyp false false a b c) (h : gemm_n_nn nd alpha beta a b c = .call t cl) : ∃ g, cl = .gemm g ∧ GemmOK g alpha beta a b c := by
+  refine gemm_n_nn.elim h (fun _ cl => ∃ g, cl = .gemm g ∧ GemmOK g alpha beta a b c) ?_ ?_ ?_ ?_ ?_ ?_ ?_ ?_
+  · exact fun g => gemm_nn_branch_2_ok alpha beta a b c H g
+  · exact fun g => gemm_nn_branch_3_ok alpha beta a b c H g
+  · exact fun g => gemm_nn_branch_4_ok alpha beta a b c H g
+  · exact fun g => gemm_nn_branch_5_ok alpha beta a b c H g
+  · exact fun g => gemm_nn_branch_6_ok alpha beta a b c H g
+  · exact fun g => gemm_nn_branch_7_ok alpha beta a b c H g
+  · exact fun g => gemm_nn_branch_8_ok alpha beta a b c H g
+  · exact fun g => gemm_nn_branch_9_ok alpha beta a b c H g
 
 theorem gemm_nc_certified {nd : Bool} {alpha beta : R} {a b c : Mat} {t : Nat} {cl : Call R}
-    (H : CHyp false true a b c) (h : gemm_n_nc nd alpha beta a b c = .call t cl) (hd : gemmNCDom t a b c) :
-    ∃ g, cl = .gemm g ∧ GemmOK g alpha beta a b c := by
-  revert hd
-  refine gemm_n_nc.elim h (fun t cl => gemmNCDom t a b c → ∃ g, cl = .gemm g ∧ GemmOK g alpha beta a b c) ?_ ?_ ?_ ?_ ?_ ?_
-  · exact fun _ d => d.elim
-  · exact fun _ d => d.elim
-  · exact fun _ d => d.elim
-  · exact fun g d => gemm_nc_branch_5_ok alpha beta a b c H g d
-  · exact fun _ d => d.elim
-  · exact fun _ d => d.elim
+    (H : GHyp false true a b c) (h : gemm_n_nc nd alpha beta a b c = .call t cl) : ∃ g, cl = .gemm g ∧ GemmOK g alpha beta a b c := by
+  refine gemm_n_nc.elim h (fun _ cl => ∃ g, cl = .gemm g ∧ GemmOK g alpha beta a b c) ?_ ?_
+  · exact fun g => gemm_nc_branch_2_ok alpha beta a b c H g
+  · exact fun g => gemm_nc_branch_3_ok alpha beta a b c H g
 
 theorem gemm_cn_certified {nd : Bool} {alpha beta : R} {a b c : Mat} {t : Nat} {cl : Call R}
-    (H : CHyp true false a b c) (h : gemm_n_cn nd alpha beta a b c = .call t cl) (hd : gemmCNDom t a b c) :
-    ∃ g, cl = .gemm g ∧ GemmOK g alpha beta a b c := by
-  revert hd
-  refine gemm_n_cn.elim h (fun t cl => gemmCNDom t a b c → ∃ g, cl = .gemm g ∧ GemmOK g alpha beta a b c) ?_ ?_
-  · exact fun g d => gemm_cn_branch_2_ok alpha beta a b c H g d
-  · exact fun g d => gemm_cn_branch_3_ok alpha beta a b c H g d
+    (H : GHyp true false a b c) (h : gemm_n_cn nd alpha beta a b c = .call t cl) : ∃ g, cl = .gemm g ∧ GemmOK g alpha beta a b c := by
+  refine gemm_n_cn.elim h (fun _ cl => ∃ g, cl = .gemm g ∧ GemmOK g alpha beta a b c) ?_
+  · exact fun g => gemm_cn_branch_2_ok alpha beta a b c H g
 
-/-- the certified domain of `gemm_n` as a whole (overload selected by the conjugation of A and B) -/
-def gemmDom (t : Nat) (a b c : Mat) : Prop :=
-  match a.cj, b.cj with
-  | false, false => gemmNNDom t a b c
-  | false, true => gemmNCDom t a b c
-  | true, false => gemmCNDom t a b c
-  | true, true => gemmCCDom t a b c
+theorem gemm_cc_certified {nd : Bool} {alpha beta : R} {a b c : Mat} {t : Nat} {cl : Call R}
+    (H : GHyp true true a b c) (h : gemm_n_cc nd alpha beta a b c = .call t cl) : ∃ g, cl = .gemm g ∧ GemmOK g alpha beta a b c := by
+  refine gemm_n_cc.elim h (fun _ cl => ∃ g, cl = .gemm g ∧ GemmOK g alpha beta a b c) ?_
+  · exact fun g => gemm_cc_branch_2_ok alpha beta a b c H g
 
-/-- **gemm_n: certified leaves.**  For operands within the view invariants, whenever `gemm_n` issues a call from a leaf
-    inside its certified domain, the call satisfies the certificate `GemmOK`. -/
+/-- every call `gemm_n` issues — any overload, any leaf — satisfies the certificate -/
 theorem gemm_n_certified {nd : Bool} {alpha beta : R} {a b c : Mat} {t : Nat} {cl : Call R}
-    (hs : GemmShapes a b c) (hc : c.cj = false) (h : gemm_n nd alpha beta a b c = .call t cl) (hd : gemmDom t a b c) :
+    (hs : GemmShapes a b c) (hc : c.cj = false) (h : gemm_n nd alpha beta a b c = .call t cl) :
     ∃ g, cl = .gemm g ∧ GemmOK g alpha beta a b c := by
   unfold gemm_n at h
-  unfold gemmDom at hd
-  cases ha : a.cj <;> cases hb : b.cj <;> simp only [ha, hb] at h hd
-  · exact gemm_nn_certified (NNHyp.of hs ha hb hc) h hd
-  · exact gemm_nc_certified ⟨hs.wa.lin, hs.wb.lin, hs.wc.lin, hs.m, hs.k, hs.n, ha, hb, hc⟩ h hd
-  · exact gemm_cn_certified ⟨hs.wa.lin, hs.wb.lin, hs.wc.lin, hs.m, hs.k, hs.n, ha, hb, hc⟩ h hd
-  · exact hd.elim
+  cases ha : a.cj <;> cases hb : b.cj <;> simp only [ha, hb] at h
+  · exact gemm_nn_certified (GHyp.of hs ha hb hc) h
+  · exact gemm_nc_certified (GHyp.of hs ha hb hc) h
+  · exact gemm_cn_certified (GHyp.of hs ha hb hc) h
+  · exact gemm_cc_certified (GHyp.of hs ha hb hc) h
 
-/-- **dispatch_legal (partial)** and **gemm_correct (partial)** for `gemm_n`: inside the certified domain the call is
-    legal for the reference BLAS, its post-state is C := alpha·A·B + beta·C on the logical contents, and no address outside
-    the image of C changes (in particular A and B, which do not overlap C, are unchanged).
-
-    FULL statement (FALSE for the current code, see `finding_gemm_*`): the same without `hd`. -/
-theorem gemm_n_correct_partial {nd : Bool} {alpha beta : R} {a b c : Mat} {t : Nat} {cl : Call R}
-    (hs : GemmShapes a b c) (hc : c.cj = false) (h : gemm_n nd alpha beta a b c = .call t cl) (hd : gemmDom t a b c) :
+/-- **dispatch_legal** and **gemm_correct** for `gemm_n` (FULL: all sizes incl. 0 and 1, all strides within the view
+    invariants, all scalars, every conjugation pattern, assertion-enabled or NDEBUG build): every call is legal for the reference
+    BLAS, its post-state is C := alpha·A·B + beta·C on the logical contents, and no address outside the image of C changes
+    (in particular A and B, which do not overlap C, are unchanged). -/
+theorem gemm_n_correct {nd : Bool} {alpha beta : R} {a b c : Mat} {t : Nat} {cl : Call R}
+    (hs : GemmShapes a b c) (hc : c.cj = false) (h : gemm_n nd alpha beta a b c = .call t cl) :
     ∃ g, cl = .gemm g ∧ g.Legal ∧ ∀ mem : Mem R, GemmSpec alpha beta a b c mem (g.exec mem) := by
-  obtain ⟨g, hg, hok⟩ := gemm_n_certified hs hc h hd
+  obtain ⟨g, hg, hok⟩ := gemm_n_certified hs hc h
   exact ⟨g, hg, (illegal_none_iff g).mp hok.1, fun mem => gemmOK_sound hc hok mem⟩
 
-/-! ## The gemm front ends (gemm.hpp:157-175, 228-243, 295-303) -/
+/-! ## The gemm front ends (gemm.hpp) -/
 
 theorem load_conj (m : Mat) (mem : Mem R) (i j : Int) : m.conj.load mem i j = CRing.conj (m.load mem i j) := by
   unfold Mat.load Mat.conj cjIf
@@ -302,17 +203,10 @@ theorem gemmSpec_of_conj {alpha beta : R} {a b c : Mat} {mem mem' : Mem R}
   · intro addr hno
     exact h.frame addr hno
 
-/-- the certified domain of `blas::gemm(alpha, a, b, beta, c)`: for a conjugated C the chain runs on the conjugated operands -/
-def gemmFrontDom (t : Nat) (a b c : Mat) : Prop :=
-  if c.cj then gemmDom t a.conj b.conj c.conj else gemmDom t a b c
-
-/-- **gemm_correct (partial)** — `blas::gemm(alpha, a, b, beta, c)`, any conjugation pattern of A, B and C: a call issued
-    from a certified leaf is legal, the post-state is C := alpha·A·B + beta·C on the LOGICAL contents (conjugations applied),
-    and only the image of C is modified.
-
-    FULL statement (false for the current code: `finding_gemm_*`): the same for every leaf, i.e. without `hd`. -/
-theorem gemm_correct_partial {nd : Bool} {alpha beta : R} {a b c : Mat} {t : Nat} {cl : Call R}
-    (hs : GemmShapes a b c) (h : Front.gemm nd alpha beta a b c = .call t cl) (hd : gemmFrontDom t a b c) :
+/-- **gemm_correct** — `blas::gemm(alpha, a, b, beta, c)`, any conjugation pattern of A, B and C (FULL): the call is legal, the
+    post-state is C := alpha·A·B + beta·C on the LOGICAL contents (conjugations applied), only the image of C is modified. -/
+theorem gemm_correct {nd : Bool} {alpha beta : R} {a b c : Mat} {t : Nat} {cl : Call R}
+    (hs : GemmShapes a b c) (h : Front.gemm nd alpha beta a b c = .call t cl) :
     ∃ g, cl = .gemm g ∧ g.Legal ∧ ∀ mem : Mem R, GemmSpec alpha beta a b c mem (g.exec mem) := by
   unfold Front.gemm at h
   by_cases c1 : ¬ nd = true ∧ ¬ (a.n0 = c.n0)
@@ -321,11 +215,10 @@ theorem gemm_correct_partial {nd : Bool} {alpha beta : R} {a b c : Mat} {t : Nat
   by_cases c2 : ¬ nd = true ∧ ¬ (a.n0 = 0) ∧ ¬ (a.n1 = b.n0)
   · rw [if_pos c2] at h; cases h
   rw [if_neg c2] at h
-  unfold gemmFrontDom at hd
   cases hc : c.cj
-  · simp only [hc, Bool.false_eq_true, if_false] at h hd
-    exact gemm_n_correct_partial hs hc h hd
-  · simp only [hc, if_true] at h hd
+  · simp only [hc, Bool.false_eq_true, if_false] at h
+    exact gemm_n_correct hs hc h
+  · simp only [hc, if_true] at h
     unfold Front.gemmPlain at h
     by_cases c3 : ¬ nd = true ∧ ¬ (a.conj.n0 = c.conj.n0)
     · rw [if_pos c3] at h; cases h
@@ -334,26 +227,42 @@ theorem gemm_correct_partial {nd : Bool} {alpha beta : R} {a b c : Mat} {t : Nat
     · rw [if_pos c4] at h; cases h
     rw [if_neg c4] at h
     have hc' : c.conj.cj = false := by simp [Mat.conj, hc]
-    obtain ⟨g, hg, hl, hsp⟩ := gemm_n_correct_partial (shapes_conj hs) hc' h hd
+    obtain ⟨g, hg, hl, hsp⟩ := gemm_n_correct (shapes_conj hs) hc' h
     exact ⟨g, hg, hl, fun mem => gemmSpec_of_conj (hsp mem)⟩
 
-/-- `c = blas::gemm(alpha, a, b)` (also `c = a * b`): C := alpha·A·B + 0·C from a certified leaf -/
-theorem gemm_assign_correct_partial {nd : Bool} {alpha : R} {a b c : Mat} {t : Nat} {cl : Call R}
-    (hs : GemmShapes a b c) (hc : c.cj = false) (h : Front.gemmAssign nd alpha a b c = .call t cl) (hd : gemmDom t a b c) :
+/-- `c = blas::gemm(alpha, a, b)` (also `c = a * b`): C := alpha·A·B + 0·C -/
+theorem gemm_assign_correct {nd : Bool} {alpha : R} {a b c : Mat} {t : Nat} {cl : Call R}
+    (hs : GemmShapes a b c) (hc : c.cj = false) (h : Front.gemmAssign nd alpha a b c = .call t cl) :
     ∃ g, cl = .gemm g ∧ g.Legal ∧ ∀ mem : Mem R, GemmSpec alpha 0 a b c mem (g.exec mem) := by
   unfold Front.gemmAssign at h
+  by_cases c0 : ¬ nd = true ∧ gemmRangeChecksInner = true ∧ ¬ (a.n0 = 0) ∧ ¬ (a.n1 = b.n0)
+  · rw [if_pos c0] at h; cases h
+  rw [if_neg c0] at h
   by_cases c1 : ¬ nd = true ∧ ¬ (c.n0 = a.n0)
   · rw [if_pos c1] at h; cases h
   rw [if_neg c1] at h
-  exact gemm_n_correct_partial hs hc h hd
+  exact gemm_n_correct hs hc h
 
-/-- `c += blas::gemm(alpha, a, b)` (also `c += a * b`): C := alpha·A·B + 1·C from a certified leaf -/
-theorem gemm_pluseq_correct_partial {nd : Bool} {alpha : R} {a b c : Mat} {t : Nat} {cl : Call R}
-    (hs : GemmShapes a b c) (hc : c.cj = false) (h : Front.gemmPlusEq nd alpha a b c = .call t cl) (hd : gemmDom t a b c) :
-    ∃ g, cl = .gemm g ∧ g.Legal ∧ ∀ mem : Mem R, GemmSpec alpha 1 a b c mem (g.exec mem) :=
-  gemm_n_correct_partial hs hc h hd
+/-- `c += blas::gemm(alpha, a, b)` (also `c += a * b`): C := alpha·A·B + 1·C -/
+theorem gemm_pluseq_correct {nd : Bool} {alpha : R} {a b c : Mat} {t : Nat} {cl : Call R}
+    (hs : GemmShapes a b c) (hc : c.cj = false) (h : Front.gemmPlusEq nd alpha a b c = .call t cl) :
+    ∃ g, cl = .gemm g ∧ g.Legal ∧ ∀ mem : Mem R, GemmSpec alpha 1 a b c mem (g.exec mem) := by
+  unfold Front.gemmPlusEq at h
+  by_cases c0 : ¬ nd = true ∧ gemmRangeChecksInner = true ∧ ¬ (a.n0 = 0) ∧ ¬ (a.n1 = b.n0)
+  · rw [if_pos c0] at h; cases h
+  rw [if_neg c0] at h
+  exact gemm_n_correct hs hc h
 
-/-! ## gemv (gemv.hpp:21-72, 96-166) -/
+/-- the lazy forms reject operands whose inner dimensions do not fit (assertion-enabled builds): `gemm(ctxtp, s, a, b)`
+    now asserts it, as the in-place `gemm` always did -/
+theorem gemm_range_rejects_mismatch {alpha : R} {a b c : Mat} (ha : a.n0 ≠ 0) (hk : a.n1 ≠ b.n0) :
+    Front.gemmAssign false alpha a b c = .assertFail 0 ∧ Front.gemmPlusEq false alpha a b c = .assertFail 0 := by
+  unfold Front.gemmAssign Front.gemmPlusEq
+  have e : (¬ false = true ∧ gemmRangeChecksInner = true ∧ ¬ (a.n0 = 0) ∧ ¬ (a.n1 = b.n0)) := ⟨by decide, by decide, ha, hk⟩
+  rw [if_pos e, if_pos e]
+  exact ⟨rfl, rfl⟩
+
+/-! ## gemv (gemv.hpp) -/
 section gemv
 variable [DecidableEq R]
 
@@ -362,7 +271,8 @@ macro "gemv_branch" : tactic => `(tactic| (
   unfold GemvOK
   rw [gemv_illegal_none_iff]
   simp only [GemvCall.Legal, OpIs, Mat.lm, isTrans, Mat.Lin, Mat.RowOK, Mat.ColOK] at *
-  simp (config := {decide := true}) only [true_and, and_true, true_or, or_true, if_true, if_false, false_and, and_false, false_or, or_false, ne_eq, not_true_eq_false, not_false_eq_true, Decidable.not_not, *] at *
+  simp (config := {decide := true}) only [true_and, and_true, true_or, or_true, if_true, if_false, false_and, and_false, false_or, or_false, ne_eq, not_true_eq_false, not_false_eq_true, Decidable.not_not, true_implies, *] at *
+  simp only [legalLd] at *
   omega))
 
 /-- view invariants and fitting sizes for y := alpha·M·x + beta·y (x and y are plain vectors: conjugated ones do not compile) -/
@@ -378,57 +288,64 @@ structure GemvHyp (m : Mat) (x y : Vec) : Prop where
   hy : y.cj = false
 
 omit [DecidableEq R] in
-/-- gemv.hpp:28 — M column-major: 'N' -/
-theorem gemv_branch_4_ok (alpha beta : R) (m : Mat) (x y : Vec) (H : GemvHyp m x y) (h : gemv_n.guard_4 m x y) (d : m.ColOK ∧ 1 ≤ m.n1) :
-    ∃ g, gemv_n.call_4 alpha beta m x y = .gemv g ∧ GemvOK g alpha beta m x y := by
-  obtain ⟨lm, xn, xi, yn, yi, hm, hk, hx, hy⟩ := H; unfold gemv_n.guard_4 at h; gemv_branch
-
-omit [DecidableEq R] in
-/-- gemv.hpp:29 — M row-major: 'T' on the transposed storage -/
-theorem gemv_branch_5_ok (alpha beta : R) (m : Mat) (x y : Vec) (H : GemvHyp m x y) (h : gemv_n.guard_5 m x y) (d : m.RowOK ∧ 1 ≤ m.n1) :
+/-- gemv.hpp:30 — M column-major: 'N' -/
+theorem gemv_branch_5_ok (alpha beta : R) (m : Mat) (x y : Vec) (H : GemvHyp m x y) (h : gemv_n.guard_5 m x y) :
     ∃ g, gemv_n.call_5 alpha beta m x y = .gemv g ∧ GemvOK g alpha beta m x y := by
   obtain ⟨lm, xn, xi, yn, yi, hm, hk, hx, hy⟩ := H; unfold gemv_n.guard_5 at h; gemv_branch
 
 omit [DecidableEq R] in
-/-- gemv.hpp:32 — conj(M), M row-major: 'C' -/
-theorem gemv_branch_2_ok (alpha beta : R) (m : Mat) (x y : Vec) (H : GemvHyp m x y) (h : gemv_n.guard_2 m x y) (d : m.RowOK ∧ 1 ≤ m.n1) :
-    ∃ g, gemv_n.call_2 alpha beta m x y = .gemv g ∧ GemvOK g alpha beta m x y := by
+/-- gemv.hpp:31 — M row-major: 'T' on the transposed storage -/
+theorem gemv_branch_6_ok (alpha beta : R) (m : Mat) (x y : Vec) (H : GemvHyp m x y) (h : gemv_n.guard_6 m x y) :
+    ∃ g, gemv_n.call_6 alpha beta m x y = .gemv g ∧ GemvOK g alpha beta m x y := by
+  obtain ⟨lm, xn, xi, yn, yi, hm, hk, hx, hy⟩ := H; unfold gemv_n.guard_6 at h; gemv_branch
+
+omit [DecidableEq R] in
+/-- gemv.hpp:34 — conj(M), M row-major: 'C' -/
+theorem gemv_branch_3_ok (alpha beta : R) (m : Mat) (x y : Vec) (H : GemvHyp m x y) (h : gemv_n.guard_3 m x y) :
+    ∃ g, gemv_n.call_3 alpha beta m x y = .gemv g ∧ GemvOK g alpha beta m x y := by
   obtain ⟨lm, xn, xi, yn, yi, hm, hk, hx, hy⟩ := H
-  unfold gemv_n.guard_2 at h
+  unfold gemv_n.guard_3 at h
   have hcj : m.cj = true := by cases hh : m.cj <;> simp_all
   gemv_branch
 
-/-- certified domain of the leaves of `gemv_n`: the matrix is usable in the orientation the leaf assumes, and the inner
-    dimension is not empty (xGEMV returns before scaling y when n = 0: `finding_gemv_branch_*_inner0`) -/
-def gemvDom (t : Nat) (m : Mat) : Prop :=
-  match t with
-  | 2 => m.RowOK ∧ 1 ≤ m.n1
-  | 4 => m.ColOK ∧ 1 ≤ m.n1
-  | 5 => m.RowOK ∧ 1 ≤ m.n1
-  | _ => False
+/-- gemv.hpp:28 — a matrix without columns: y := beta·y by xSCAL (xGEMV would return without scaling y) -/
+theorem gemv_branch_2_ok (alpha beta : R) (m : Mat) (x y : Vec) (H : GemvHyp m x y) (h : gemv_n.guard_2 m x y) :
+    ∃ g, gemv_n.call_2 alpha beta m x y = .scal g ∧ ∀ mem : Mem R, GemvSpec alpha beta m x y mem (g.execScal mem) := by
+  refine ⟨_, rfl, fun mem => ?_⟩
+  unfold gemv_n.guard_2 at h
+  have hs := scal_sound (g := (⟨m.n0, beta, y.base, y.inc, 0, 0⟩ : L1Call R)) (x := y) H.hm rfl rfl H.hy H.yi rfl mem
+  have hz : m.n1 = 0 := h
+  constructor
+  · intro i hi0 hi
+    rw [hs.elems i hi0 hi, hz]
+    show beta * y.load mem i = alpha * sumTo 0 _ + beta * y.load mem i
+    unfold sumTo
+    rw [mul_zero', CRing.zero_add]
+  · exact hs.frame
 
-omit [DecidableEq R] in
-theorem gemv_n_certified {nd : Bool} {alpha beta : R} {m : Mat} {x y : Vec} {t : Nat} {cl : Call R}
-    (H : GemvHyp m x y) (h : gemv_n nd alpha beta m x y = .call t cl) (hd : gemvDom t m) :
-    ∃ g, cl = .gemv g ∧ GemvOK g alpha beta m x y := by
-  revert hd
-  refine gemv_n.elim h (fun t cl => gemvDom t m → ∃ g, cl = .gemv g ∧ GemvOK g alpha beta m x y) ?_ ?_ ?_
-  · exact fun g d => gemv_branch_2_ok alpha beta m x y H g d
-  · exact fun g d => gemv_branch_4_ok alpha beta m x y H g d
-  · exact fun g d => gemv_branch_5_ok alpha beta m x y H g d
-
-/-- **gemv_correct (partial)** for `gemv_n`: from a certified leaf the call is legal and y := alpha·M·x + beta·y on the logical
-    contents, nothing but the image of y changes.  FULL statement (false: `finding_gemv_*`): without `hd`. -/
-theorem gemv_n_correct_partial {nd : Bool} {alpha beta : R} {m : Mat} {x y : Vec} {t : Nat} {cl : Call R}
-    (H : GemvHyp m x y) (h : gemv_n nd alpha beta m x y = .call t cl) (hd : gemvDom t m) :
-    ∃ g, cl = .gemv g ∧ g.Legal ∧ ∀ mem : Mem R, GemvSpec alpha beta m x y mem (g.exec mem) := by
-  obtain ⟨g, hg, hok⟩ := gemv_n_certified H h hd
-  exact ⟨g, hg, (gemv_illegal_none_iff g).mp hok.1, fun mem => gemvOK_sound hok mem⟩
+/-- **gemv_correct** for `gemv_n` (FULL): whatever leaf is taken, the call is legal and the post-state is
+    y := alpha·M·x + beta·y on the logical contents; nothing but the image of y changes. -/
+theorem gemv_n_correct {nd cplx : Bool} {alpha beta : R} {m : Mat} {x y : Vec} {t : Nat} {cl : Call R}
+    (H : GemvHyp m x y) (h : gemv_n nd alpha beta m x y = .call t cl) :
+    cl.illegalL cplx false = none ∧ ∀ mem : Mem R, GemvSpec alpha beta m x y mem (cl.execL cplx false mem) := by
+  refine gemv_n.elim h (fun _ cl => cl.illegalL cplx false = none ∧ ∀ mem : Mem R, GemvSpec alpha beta m x y mem (cl.execL cplx false mem)) ?_ ?_ ?_ ?_
+  · intro g
+    obtain ⟨c, hc, hsp⟩ := gemv_branch_2_ok alpha beta m x y H g
+    rw [hc]; exact ⟨rfl, hsp⟩
+  · intro g
+    obtain ⟨c, hc, hok⟩ := gemv_branch_3_ok alpha beta m x y H g
+    rw [hc]; exact ⟨hok.1, fun mem => gemvOK_sound hok mem⟩
+  · intro g
+    obtain ⟨c, hc, hok⟩ := gemv_branch_5_ok alpha beta m x y H g
+    rw [hc]; exact ⟨hok.1, fun mem => gemvOK_sound hok mem⟩
+  · intro g
+    obtain ⟨c, hc, hok⟩ := gemv_branch_6_ok alpha beta m x y H g
+    rw [hc]; exact ⟨hok.1, fun mem => gemvOK_sound hok mem⟩
 
 /-- `blas::gemv(alpha, M, x, beta, y)` -/
-theorem gemv_correct_partial {nd : Bool} {alpha beta : R} {m : Mat} {x y : Vec} {t : Nat} {cl : Call R}
-    (H : GemvHyp m x y) (h : Front.gemv nd alpha beta m x y = .call t cl) (hd : gemvDom t m) :
-    ∃ g, cl = .gemv g ∧ g.Legal ∧ ∀ mem : Mem R, GemvSpec alpha beta m x y mem (g.exec mem) := by
+theorem gemv_correct {nd cplx : Bool} {alpha beta : R} {m : Mat} {x y : Vec} {t : Nat} {cl : Call R}
+    (H : GemvHyp m x y) (h : Front.gemv nd alpha beta m x y = .call t cl) :
+    cl.illegalL cplx false = none ∧ ∀ mem : Mem R, GemvSpec alpha beta m x y mem (cl.execL cplx false mem) := by
   unfold Front.gemv at h
   by_cases c1 : ¬ nd = true ∧ ¬ (m.n0 = y.n)
   · rw [if_pos c1] at h; cases h
@@ -436,12 +353,12 @@ theorem gemv_correct_partial {nd : Bool} {alpha beta : R} {m : Mat} {x y : Vec} 
   by_cases c2 : ¬ nd = true ∧ ¬ (m.n1 = x.n)
   · rw [if_pos c2] at h; cases h
   rw [if_neg c2] at h
-  exact gemv_n_correct_partial H h hd
+  exact gemv_n_correct H h
 
 /-- `y = blas::gemv(alpha, M, x)`: beta = 0 -/
-theorem gemv_assign_correct_partial {nd : Bool} {alpha : R} {m : Mat} {x y : Vec} {t : Nat} {cl : Call R}
-    (H : GemvHyp m x y) (h : Front.gemvAssign nd alpha m x y = .call t cl) (hd : gemvDom t m) :
-    ∃ g, cl = .gemv g ∧ g.Legal ∧ ∀ mem : Mem R, GemvSpec alpha 0 m x y mem (g.exec mem) := by
+theorem gemv_assign_correct {nd cplx : Bool} {alpha : R} {m : Mat} {x y : Vec} {t : Nat} {cl : Call R}
+    (H : GemvHyp m x y) (h : Front.gemvAssign nd alpha m x y = .call t cl) :
+    cl.illegalL cplx false = none ∧ ∀ mem : Mem R, GemvSpec alpha 0 m x y mem (cl.execL cplx false mem) := by
   unfold Front.gemvAssign at h
   by_cases c1 : ¬ nd = true ∧ ¬ (m.n1 = x.n)
   · rw [if_pos c1] at h; cases h
@@ -449,43 +366,21 @@ theorem gemv_assign_correct_partial {nd : Bool} {alpha : R} {m : Mat} {x y : Vec
   by_cases c2 : ¬ nd = true ∧ ¬ (y.n = m.n0)
   · rw [if_pos c2] at h; cases h
   rw [if_neg c2] at h
-  exact gemv_n_correct_partial H h hd
+  exact gemv_n_correct H h
 
 /-- `y += blas::gemv(alpha, M, x)`: beta = 1 -/
-theorem gemv_pluseq_correct_partial {nd : Bool} {alpha : R} {m : Mat} {x y : Vec} {t : Nat} {cl : Call R}
-    (H : GemvHyp m x y) (h : Front.gemvPlusEq nd alpha m x y = .call t cl) (hd : gemvDom t m) :
-    ∃ g, cl = .gemv g ∧ g.Legal ∧ ∀ mem : Mem R, GemvSpec alpha 1 m x y mem (g.exec mem) := by
+theorem gemv_pluseq_correct {nd cplx : Bool} {alpha : R} {m : Mat} {x y : Vec} {t : Nat} {cl : Call R}
+    (H : GemvHyp m x y) (h : Front.gemvPlusEq nd alpha m x y = .call t cl) :
+    cl.illegalL cplx false = none ∧ ∀ mem : Mem R, GemvSpec alpha 1 m x y mem (cl.execL cplx false mem) := by
   unfold Front.gemvPlusEq at h
   by_cases c1 : ¬ nd = true ∧ ¬ (m.n1 = x.n)
   · rw [if_pos c1] at h; cases h
   rw [if_neg c1] at h
-  exact gemv_n_correct_partial H h hd
-
-structure GemvCounterexample (guard : Mat → Vec → Vec → Prop) (call : GInt → GInt → Mat → Vec → Vec → Call GInt) (m : Mat) (x y : Vec) : Prop where
-  wf : m.WF
-  sizes : m.n0 = y.n ∧ m.n1 = x.n ∧ 1 ≤ x.inc ∧ 1 ≤ y.inc ∧ x.cj = false ∧ y.cj = false
-  guard : guard m x y
-  bad : ∃ g : GemvCall GInt, call 1 ⟨2, 1⟩ m x y = .gemv g ∧ (g.illegal ≠ none ∨ ¬ GemvSpec 1 ⟨2, 1⟩ m x y zmem (g.exec zmem))
-
-/-- gemv.hpp:28 — a contiguous m×1 matrix (both strides 1, m > 1) is taken for column-major with lda = 1: XERBLA parameter 6 -/
-theorem finding_gemv_branch_4 : GemvCounterexample gemv_n.guard_4 gemv_n.call_4 ⟨0, 1, 1, 3, 1, false⟩ ⟨100, 1, 1, false⟩ ⟨200, 1, 3, false⟩ :=
-  ⟨by wf_dec, by decide, by decide, _, rfl, Or.inl (by decide)⟩
-
-/-- gemv.hpp:28 — inner dimension 0: the legal call returns at once, y is not scaled by beta -/
-theorem finding_gemv_branch_4_inner0 : GemvCounterexample gemv_n.guard_4 gemv_n.call_4 ⟨0, 1, 3, 2, 0, false⟩ ⟨100, 1, 0, false⟩ ⟨200, 1, 2, false⟩ :=
-  ⟨by wf_dec, by decide, by decide, _, rfl, Or.inr (fun h => absurd (h.elems 0 (by decide) (by decide)) (by decide))⟩
-
-/-- gemv.hpp:29 — inner dimension 0 -/
-theorem finding_gemv_branch_5_inner0 : GemvCounterexample gemv_n.guard_5 gemv_n.call_5 ⟨0, 3, 1, 2, 0, false⟩ ⟨100, 1, 0, false⟩ ⟨200, 1, 2, false⟩ :=
-  ⟨by wf_dec, by decide, by decide, _, rfl, Or.inr (fun h => absurd (h.elems 0 (by decide) (by decide)) (by decide))⟩
-
-/-- gemv.hpp:32 — inner dimension 0, conjugated matrix -/
-theorem finding_gemv_branch_2_inner0 : GemvCounterexample gemv_n.guard_2 gemv_n.call_2 ⟨0, 3, 1, 2, 0, true⟩ ⟨100, 1, 0, false⟩ ⟨200, 1, 2, false⟩ :=
-  ⟨by wf_dec, by decide, by decide, _, rfl, Or.inr (fun h => absurd (h.elems 0 (by decide) (by decide)) (by decide))⟩
+  exact gemv_n_correct H h
 
 end gemv
 
-/-! ## syrk (syrk.hpp:17-37; also reached by `herk` on real element types) -/
+/-! ## syrk (syrk.hpp; also reached by `herk` on real element types) -/
 section syrk
 
 macro "syrk_branch" s:ident c:ident : tactic => `(tactic| (
@@ -494,10 +389,12 @@ macro "syrk_branch" s:ident c:ident : tactic => `(tactic| (
   rw [syrk_illegal_none_iff]
   cases $s:ident <;> cases $c:ident <;>
   (simp only [RankKCall.LegalSyrk, OutIs, RkIs, Mat.lm, Mat.lmT, Mat.Lin, Mat.RowOK, Mat.ColOK, Filling.char, Filling.flip] at *
-   simp (config := {decide := true}) only [true_and, and_true, true_or, or_true, if_true, if_false, false_and, and_false, false_or, or_false, ne_eq, not_true_eq_false, not_false_eq_true, *] at *
+   simp (config := {decide := true}) only [true_and, and_true, true_or, or_true, if_true, if_false, false_and, and_false, false_or, or_false, ne_eq, not_true_eq_false, not_false_eq_true, true_implies, *] at *
+   simp only [legalLd] at *
    omega)))
 
-/-- view invariants for C := alpha·A·Aᵀ + beta·C: C square, as many rows as A, nothing conjugated -/
+/-- view invariants for C := alpha·A·Aᵀ + beta·C: C square, as many rows as A, nothing conjugated, and — what syrk.hpp:22-23
+    assert — A and C have a unit stride (anything else is not a BLAS matrix) -/
 structure SyrkHyp (a c : Mat) : Prop where
   la : a.Lin
   lc : c.Lin
@@ -505,71 +402,66 @@ structure SyrkHyp (a c : Mat) : Prop where
   hsq : c.n1 = c.n0
   ha : a.cj = false
   hc : c.cj = false
+  ua : a.s0 = 1 ∨ a.s1 = 1
+  uc : c.s0 = 1 ∨ c.s1 = 1
 
 variable (cplx : Bool) (side : Filling) (alpha beta : R) (a c : Mat)
 
-/-- syrk.hpp:32 — A and C row-major.  The chain never checks that the inner strides are 1 (no assertion at all): the domain has to say it. -/
-theorem syrk_branch_1_ok (H : SyrkHyp a c) (h : syrk.guard_1 side a c) (d : a.RowOK ∧ c.RowOK ∧ (a.s1 = 1 ∨ a.n1 ≤ 1) ∧ (c.s1 = 1 ∨ c.n0 ≤ 1)) :
+/-- syrk.hpp:34 — A and C row-major -/
+theorem syrk_branch_1_ok (H : SyrkHyp a c) (h : syrk.guard_1 side a c) :
     ∃ g, syrk.call_1 side alpha beta a c = .syrk g ∧ SyrkOK g cplx alpha beta side a c := by
-  obtain ⟨la, lc, hn, hsq, ha, hc⟩ := H; unfold syrk.guard_1 at h; syrk_branch side cplx
+  obtain ⟨la, lc, hn, hsq, ha, hc, ua, uc⟩ := H; unfold syrk.guard_1 at h; syrk_branch side cplx
 
-/-- syrk.hpp:26 — A column-major, C row-major -/
-theorem syrk_branch_2_ok (H : SyrkHyp a c) (h : syrk.guard_2 side a c) (d : a.ColOK ∧ c.RowOK ∧ (c.s1 = 1 ∨ c.n0 ≤ 1)) :
+/-- syrk.hpp:28 — A column-major, C row-major -/
+theorem syrk_branch_2_ok (H : SyrkHyp a c) (h : syrk.guard_2 side a c) :
     ∃ g, syrk.call_2 side alpha beta a c = .syrk g ∧ SyrkOK g cplx alpha beta side a c := by
-  obtain ⟨la, lc, hn, hsq, ha, hc⟩ := H; unfold syrk.guard_2 at h; syrk_branch side cplx
+  obtain ⟨la, lc, hn, hsq, ha, hc, ua, uc⟩ := H; unfold syrk.guard_2 at h; syrk_branch side cplx
 
-/-- syrk.hpp:30 — A row-major, C column-major -/
-theorem syrk_branch_4_ok (H : SyrkHyp a c) (h : syrk.guard_4 side a c) (d : a.RowOK ∧ c.ColOK ∧ (a.s1 = 1 ∨ a.n1 ≤ 1)) :
+/-- syrk.hpp:26 — A and C column-major -/
+theorem syrk_branch_3_ok (H : SyrkHyp a c) (h : syrk.guard_3 side a c) :
+    ∃ g, syrk.call_3 side alpha beta a c = .syrk g ∧ SyrkOK g cplx alpha beta side a c := by
+  obtain ⟨la, lc, hn, hsq, ha, hc, ua, uc⟩ := H; unfold syrk.guard_3 at h; syrk_branch side cplx
+
+/-- syrk.hpp:32 — A row-major, C column-major -/
+theorem syrk_branch_4_ok (H : SyrkHyp a c) (h : syrk.guard_4 side a c) :
     ∃ g, syrk.call_4 side alpha beta a c = .syrk g ∧ SyrkOK g cplx alpha beta side a c := by
-  obtain ⟨la, lc, hn, hsq, ha, hc⟩ := H; unfold syrk.guard_4 at h; syrk_branch side cplx
-
-/-- certified domain of the leaves of `syrk` (leaf 3 — A and C column-major — is wrong: `finding_syrk_branch_3`) -/
-def syrkDom (t : Nat) (a c : Mat) : Prop :=
-  match t with
-  | 1 => a.RowOK ∧ c.RowOK ∧ (a.s1 = 1 ∨ a.n1 ≤ 1) ∧ (c.s1 = 1 ∨ c.n0 ≤ 1)
-  | 2 => a.ColOK ∧ c.RowOK ∧ (c.s1 = 1 ∨ c.n0 ≤ 1)
-  | 4 => a.RowOK ∧ c.ColOK ∧ (a.s1 = 1 ∨ a.n1 ≤ 1)
-  | _ => False
+  obtain ⟨la, lc, hn, hsq, ha, hc, ua, uc⟩ := H; unfold syrk.guard_4 at h; syrk_branch side cplx
 
 end syrk
 
-/-- **syrk_correct (partial)**: from a certified leaf the xSYRK call is legal and C := alpha·A·Aᵀ + beta·C on the `side` triangle
-    of the logical matrix; nothing else (in particular the other triangle) changes.  FULL statement false: `finding_syrk_*`. -/
-theorem syrk_correct_partial [DecidableEq R] {nd cplx : Bool} {side : Filling} {alpha beta : R} {a c : Mat} {t : Nat} {cl : Call R}
-    (H : SyrkHyp a c) (h : Gen.syrk nd side alpha beta a c = .call t cl) (hd : syrkDom t a c) :
+/-- **syrk_correct** (FULL): whatever leaf is taken, the xSYRK call is legal and C := alpha·A·Aᵀ + beta·C on the `side` triangle
+    of the logical matrix; nothing else (in particular the other triangle) changes. -/
+theorem syrk_correct [DecidableEq R] {nd cplx : Bool} {side : Filling} {alpha beta : R} {a c : Mat} {t : Nat} {cl : Call R}
+    (H : SyrkHyp a c) (h : Gen.syrk nd side alpha beta a c = .call t cl) :
     ∃ g, cl = .syrk g ∧ g.LegalSyrk cplx ∧ ∀ mem : Mem R, SyrkSpec alpha beta side a c mem (g.execSyrk cplx mem) := by
   have key : ∃ g, cl = .syrk g ∧ SyrkOK g cplx alpha beta side a c := by
-    revert hd
-    refine syrk.elim h (fun t cl => syrkDom t a c → ∃ g, cl = .syrk g ∧ SyrkOK g cplx alpha beta side a c) ?_ ?_ ?_ ?_
-    · exact fun g d => syrk_branch_1_ok cplx side alpha beta a c H g d
-    · exact fun g d => syrk_branch_2_ok cplx side alpha beta a c H g d
-    · exact fun _ d => d.elim
-    · exact fun g d => syrk_branch_4_ok cplx side alpha beta a c H g d
+    refine syrk.elim h (fun _ cl => ∃ g, cl = .syrk g ∧ SyrkOK g cplx alpha beta side a c) ?_ ?_ ?_ ?_
+    · exact fun g => syrk_branch_1_ok cplx side alpha beta a c H g
+    · exact fun g => syrk_branch_2_ok cplx side alpha beta a c H g
+    · exact fun g => syrk_branch_3_ok cplx side alpha beta a c H g
+    · exact fun g => syrk_branch_4_ok cplx side alpha beta a c H g
   obtain ⟨g, hg, hok⟩ := key
   exact ⟨g, hg, (syrk_illegal_none_iff g cplx).mp hok.1, fun mem => syrkOK_sound H.hc hok mem⟩
 
-structure SyrkCounterexample (guard : Filling → Mat → Mat → Prop) (call : Filling → GInt → GInt → Mat → Mat → Call GInt) (side : Filling) (a c : Mat) : Prop where
-  wa : a.WF
-  wc : c.WF
-  sizes : a.n0 = c.n0 ∧ c.n1 = c.n0 ∧ a.cj = false ∧ c.cj = false
-  guard : guard side a c
-  bad : ∃ g : RankKCall GInt, call side 1 ⟨2, 1⟩ a c = .syrk g ∧ (g.illegal false true ≠ none ∨ ¬ SyrkSpec 1 ⟨2, 1⟩ side a c zmem (g.execSyrk true zmem))
+/-- syrk.hpp:22-23 — in an assertion-enabled build a matrix A or C without a unit stride is rejected before any call -/
+theorem syrk_nonunit_rejected {side : Filling} {alpha beta : R} {a c : Mat}
+    (h : ¬ (a.s0 = 1 ∨ a.s1 = 1) ∨ ¬ (c.s0 = 1 ∨ c.s1 = 1)) :
+    ∃ t, Gen.syrk false side alpha beta a c = .assertFail t := by
+  unfold Gen.syrk
+  by_cases c1 : ¬ false = true ∧ ¬ (c.n0 = c.n1)
+  · rw [if_pos c1]; exact ⟨_, rfl⟩
+  rw [if_neg c1]
+  by_cases c2 : ¬ false = true ∧ ¬ ((a.s0 = 1) ∨ (a.s1 = 1))
+  · rw [if_pos c2]; exact ⟨_, rfl⟩
+  rw [if_neg c2]
+  by_cases c3 : ¬ false = true ∧ ¬ ((c.s0 = 1) ∨ (c.s1 = 1))
+  · rw [if_pos c3]; exact ⟨_, rfl⟩
+  exfalso
+  rcases h with h | h
+  · exact c2 ⟨by decide, h⟩
+  · exact c3 ⟨by decide, h⟩
 
-/-- syrk.hpp:24 — A and C column-major: the call passes k = size(a) (the number of ROWS of A) and ldc = the number of
-    columns of C: a 2×3 A into a contiguous 2×2 C sums over 2 instead of 3 columns -/
-theorem finding_syrk_branch_3 : SyrkCounterexample syrk.guard_3 syrk.call_3 .lower ⟨0, 1, 2, 2, 3, false⟩ ⟨200, 1, 2, 2, 2, false⟩ :=
-  ⟨by wf_dec, by wf_dec, by decide, by decide, _, rfl, Or.inr (fun h => absurd (h.elems 0 0 (by decide) (by decide) (by decide) (by decide) (by decide)) (by decide))⟩
-
-/-- syrk.hpp:26 — a contiguous n×1 matrix A (both strides 1) is taken for column-major with lda = 1: XERBLA parameter 7 -/
-theorem finding_syrk_branch_2 : SyrkCounterexample syrk.guard_2 syrk.call_2 .lower ⟨0, 1, 1, 3, 1, false⟩ ⟨200, 4, 1, 3, 3, false⟩ :=
-  ⟨by wf_dec, by wf_dec, by decide, by decide, _, rfl, Or.inl (by decide)⟩
-
-/-- syrk.hpp:32 — no stride is checked: a matrix A whose inner stride is 2 (inexpressible in BLAS) is accepted and a legal call
-    computes from the wrong elements instead of being rejected -/
-theorem finding_syrk_branch_1_nonunit : SyrkCounterexample syrk.guard_1 syrk.call_1 .lower ⟨0, 8, 2, 2, 3, false⟩ ⟨200, 4, 1, 2, 2, false⟩ :=
-  ⟨by wf_dec, by wf_dec, by decide, by decide, _, rfl, Or.inr (fun h => absurd (h.elems 0 0 (by decide) (by decide) (by decide) (by decide) (by decide)) (by decide))⟩
-
-/-! ## herk, complex element types (herk.hpp:96-134) — for a non-conjugated C -/
+/-! ## herk, complex element types (herk.hpp) — for a non-conjugated C -/
 section herk
 
 macro "herk_branch" s:ident : tactic => `(tactic| (
@@ -578,77 +470,112 @@ macro "herk_branch" s:ident : tactic => `(tactic| (
   rw [herk_illegal_none_iff]
   cases $s:ident <;>
   (simp only [RankKCall.LegalHerk, OutIs, RkIsU, Mat.lm, Mat.lmT, Mat.Lin, Mat.RowOK, Mat.ColOK, Filling.char, Filling.flip] at *
-   simp (config := {decide := true}) only [true_and, and_true, true_or, or_true, if_true, if_false, false_and, and_false, false_or, or_false, ne_eq, not_true_eq_false, not_false_eq_true, Decidable.not_not, *] at *
+   simp (config := {decide := true}) only [true_and, and_true, true_or, or_true, if_true, if_false, false_and, and_false, false_or, or_false, ne_eq, not_true_eq_false, not_false_eq_true, Decidable.not_not, true_implies, *] at *
+   simp only [legalLd] at *
    omega)))
 
+/-- view invariants for C := alpha·A·Aᴴ + beta·C: C square and not conjugated, as many rows as A, and — what herk.hpp:112-113
+    assert — A and C have a unit stride -/
 structure HerkHyp (a c : Mat) : Prop where
   la : a.Lin
   lc : c.Lin
   hn : a.n0 = c.n0
   hsq : c.n1 = c.n0
   hc : c.cj = false
+  ua : a.s0 = 1 ∨ a.s1 = 1
+  uc : c.s0 = 1 ∨ c.s1 = 1
 
 variable (side : Filling) (alpha beta : R) (a c : Mat)
 
-/-- herk.hpp:140 — A and C column-major -/
-theorem herk_branch_1_ok (H : HerkHyp a c) (h : herk_plain.guard_1 side a c) (d : a.ColOK ∧ c.ColOK) :
+/-- herk.hpp:142 — A and C column-major -/
+theorem herk_branch_1_ok (H : HerkHyp a c) (h : herk_plain.guard_1 side a c) :
     ∃ g, herk_plain.call_1 side alpha beta a c = .herk g ∧ HerkOK g alpha beta side a c := by
-  obtain ⟨la, lc, hn, hsq, hc⟩ := H; unfold herk_plain.guard_1 at h
+  obtain ⟨la, lc, hn, hsq, hc, ua, uc⟩ := H; unfold herk_plain.guard_1 at h
   have hcj : a.cj = false := by cases hh : a.cj <;> simp_all
   herk_branch side
 
-/-- herk.hpp:134 — A and C row-major: Cᵀ = (Aᴴ)ᴴ·Aᴴ with the 'C' flag on the stored k×n matrix -/
-theorem herk_branch_5_ok (H : HerkHyp a c) (h : herk_plain.guard_5 side a c) (d : a.RowOK ∧ c.RowOK ∧ (a.s1 = 1 ∨ a.n1 ≤ 1) ∧ (c.s1 = 1 ∨ c.n0 ≤ 1)) :
+/-- herk.hpp:138 — a single row A (row-major) into a 1×1 C: the `uplo` of the call is the one of the other triangle, which for a
+    1×1 matrix is the same cell -/
+theorem herk_branch_4_ok (H : HerkHyp a c) (h : herk_plain.guard_4 side a c) :
+    ∃ g, herk_plain.call_4 side alpha beta a c = .herk g ∧ HerkOK g alpha beta side.flip a c := by
+  obtain ⟨la, lc, hn, hsq, hc, ua, uc⟩ := H; unfold herk_plain.guard_4 at h
+  have hcj : a.cj = false := by cases hh : a.cj <;> simp_all
+  herk_branch side
+
+/-- herk.hpp:136 — A and C row-major: Cᵀ = (Aᴴ)ᴴ·Aᴴ with the 'C' flag on the stored k×n matrix -/
+theorem herk_branch_5_ok (H : HerkHyp a c) (h : herk_plain.guard_5 side a c) :
     ∃ g, herk_plain.call_5 side alpha beta a c = .herk g ∧ HerkOK g alpha beta side a c := by
-  obtain ⟨la, lc, hn, hsq, hc⟩ := H; unfold herk_plain.guard_5 at h
+  obtain ⟨la, lc, hn, hsq, hc, ua, uc⟩ := H; unfold herk_plain.guard_5 at h
   have hcj : a.cj = false := by cases hh : a.cj <;> simp_all
   herk_branch side
 
-/-- herk.hpp:124 — conj(A) column-major, C row-major -/
-theorem herk_branch_9_ok (H : HerkHyp a c) (h : herk_plain.guard_9 side a c) (d : a.ColOK ∧ c.RowOK ∧ (c.s1 = 1 ∨ c.n0 ≤ 1)) :
+/-- herk.hpp:128 — conj(A) with a single row, contiguous 1×1 C -/
+theorem herk_branch_8_ok (H : HerkHyp a c) (h : herk_plain.guard_8 side a c) :
+    ∃ g, herk_plain.call_8 side alpha beta a c = .herk g ∧ HerkOK g alpha beta side a c := by
+  obtain ⟨la, lc, hn, hsq, hc, ua, uc⟩ := H; unfold herk_plain.guard_8 at h
+  have hcj : a.cj = true := by cases hh : a.cj <;> simp_all
+  herk_branch side
+
+/-- herk.hpp:126 — conj(A) column-major, C row-major -/
+theorem herk_branch_9_ok (H : HerkHyp a c) (h : herk_plain.guard_9 side a c) :
     ∃ g, herk_plain.call_9 side alpha beta a c = .herk g ∧ HerkOK g alpha beta side a c := by
-  obtain ⟨la, lc, hn, hsq, hc⟩ := H; unfold herk_plain.guard_9 at h
+  obtain ⟨la, lc, hn, hsq, hc, ua, uc⟩ := H; unfold herk_plain.guard_9 at h
   have hcj : a.cj = true := by cases hh : a.cj <;> simp_all
   herk_branch side
 
-/-- herk.hpp:129 — conj(A) row-major, C column-major -/
-theorem herk_branch_10_ok (H : HerkHyp a c) (h : herk_plain.guard_10 side a c) (d : a.RowOK ∧ c.ColOK ∧ (a.s1 = 1 ∨ a.n1 ≤ 1)) :
+/-- herk.hpp:131 — conj(A) row-major, C column-major -/
+theorem herk_branch_10_ok (H : HerkHyp a c) (h : herk_plain.guard_10 side a c) :
     ∃ g, herk_plain.call_10 side alpha beta a c = .herk g ∧ HerkOK g alpha beta side a c := by
-  obtain ⟨la, lc, hn, hsq, hc⟩ := H; unfold herk_plain.guard_10 at h
+  obtain ⟨la, lc, hn, hsq, hc, ua, uc⟩ := H; unfold herk_plain.guard_10 at h
   have hcj : a.cj = true := by cases hh : a.cj <;> simp_all
   herk_branch side
-
-/-- certified domain of the leaves of the complex `herk` (11: wrong, `finding_herk_branch_11`; 4 and 8, the `size(a)==1`
-    special cases, are not covered by the certificate: validated by the differential run only) -/
-def herkDom (t : Nat) (a c : Mat) : Prop :=
-  match t with
-  | 1 => a.ColOK ∧ c.ColOK
-  | 5 => a.RowOK ∧ c.RowOK ∧ (a.s1 = 1 ∨ a.n1 ≤ 1) ∧ (c.s1 = 1 ∨ c.n0 ≤ 1)
-  | 9 => a.ColOK ∧ c.RowOK ∧ (c.s1 = 1 ∨ c.n0 ≤ 1)
-  | 10 => a.RowOK ∧ c.ColOK ∧ (a.s1 = 1 ∨ a.n1 ≤ 1)
-  | _ => False
 
 end herk
 
-/-- **herk_correct (partial)**, C not conjugated, Hermitian input (real diagonal): from a certified leaf the xHERK call is
+/-- on a matrix C with at most one row the two triangles are the same cell -/
+theorem herkSpec_single_flip {alpha beta : R} {side : Filling} {a c : Mat} {mem mem' : Mem R} (h1 : c.n0 ≤ 1) (hsq : c.n1 = c.n0)
+    (h : HerkSpec alpha beta side.flip a c mem mem') : HerkSpec alpha beta side a c mem mem' := by
+  refine ⟨?_, h.diag, ?_⟩
+  · intro i j hi0 hi hj0 hj _ hne
+    omega
+  · intro addr hno
+    apply h.frame
+    rintro ⟨i, j, hi0, hi, hj0, hj, _, hadr⟩
+    apply hno
+    have hi' : i = 0 := by omega
+    have hj' : j = 0 := by omega
+    subst hi'; subst hj'
+    refine ⟨0, 0, hi0, hi, hj0, hj, ?_, hadr⟩
+    cases side <;> exact Int.le_refl 0
+
+/-- **herk_correct** (FULL for a non-conjugated C), Hermitian input (real diagonal): whatever leaf is taken, the xHERK call is
     legal and C := alpha·A·Aᴴ + beta·C on the `side` triangle (the diagonal loses its imaginary part), nothing else changes.
     Stated for `herk_plain`, which IS `herk` for a non-conjugated C (`herk_eq_plain`). -/
-theorem herk_correct_partial [DecidableEq R] {nd : Bool} {side : Filling} {alpha beta : R} {a c : Mat} {t : Nat} {cl : Call R}
-    (H : HerkHyp a c) (h : herk_plain nd side alpha beta a c = .call t cl) (hd : herkDom t a c) :
+theorem herk_correct [DecidableEq R] {nd : Bool} {side : Filling} {alpha beta : R} {a c : Mat} {t : Nat} {cl : Call R}
+    (H : HerkHyp a c) (h : herk_plain nd side alpha beta a c = .call t cl) :
     ∃ g, cl = .herk g ∧ g.LegalHerk ∧
       ∀ mem : Mem R, (∀ i : Int, 0 ≤ i → i < c.n0 → CRing.conj (c.load mem i i) = c.load mem i i) → HerkSpec alpha beta side a c mem (g.execHerk mem) := by
-  have key : ∃ g, cl = .herk g ∧ HerkOK g alpha beta side a c := by
-    revert hd
-    refine herk_plain.elim h (fun t cl => herkDom t a c → ∃ g, cl = .herk g ∧ HerkOK g alpha beta side a c) ?_ ?_ ?_ ?_ ?_ ?_ ?_
-    · exact fun g d => herk_branch_1_ok side alpha beta a c H g d
-    · exact fun _ d => d.elim
-    · exact fun g d => herk_branch_5_ok side alpha beta a c H g d
-    · exact fun _ d => d.elim
-    · exact fun g d => herk_branch_9_ok side alpha beta a c H g d
-    · exact fun g d => herk_branch_10_ok side alpha beta a c H g d
-    · exact fun _ d => d.elim
-  obtain ⟨g, hg, hok⟩ := key
-  exact ⟨g, hg, (herk_illegal_none_iff g).mp hok.1, fun mem hdg => herkOK_sound H.hc hok mem hdg⟩
+  refine herk_plain.elim h (fun _ cl => ∃ g, cl = .herk g ∧ g.LegalHerk ∧
+      ∀ mem : Mem R, (∀ i : Int, 0 ≤ i → i < c.n0 → CRing.conj (c.load mem i i) = c.load mem i i) → HerkSpec alpha beta side a c mem (g.execHerk mem)) ?_ ?_ ?_ ?_ ?_ ?_
+  · intro gd
+    obtain ⟨g, hg, hok⟩ := herk_branch_1_ok side alpha beta a c H gd
+    exact ⟨g, hg, (herk_illegal_none_iff g).mp hok.1, fun mem hdg => herkOK_sound H.hc hok mem hdg⟩
+  · intro gd
+    obtain ⟨g, hg, hok⟩ := herk_branch_4_ok side alpha beta a c H gd
+    have h1 : c.n0 ≤ 1 := by have := gd.2.2.2.2.2; have := H.hn; omega
+    exact ⟨g, hg, (herk_illegal_none_iff g).mp hok.1, fun mem hdg => herkSpec_single_flip h1 H.hsq (herkOK_sound H.hc hok mem hdg)⟩
+  · intro gd
+    obtain ⟨g, hg, hok⟩ := herk_branch_5_ok side alpha beta a c H gd
+    exact ⟨g, hg, (herk_illegal_none_iff g).mp hok.1, fun mem hdg => herkOK_sound H.hc hok mem hdg⟩
+  · intro gd
+    obtain ⟨g, hg, hok⟩ := herk_branch_8_ok side alpha beta a c H gd
+    exact ⟨g, hg, (herk_illegal_none_iff g).mp hok.1, fun mem hdg => herkOK_sound H.hc hok mem hdg⟩
+  · intro gd
+    obtain ⟨g, hg, hok⟩ := herk_branch_9_ok side alpha beta a c H gd
+    exact ⟨g, hg, (herk_illegal_none_iff g).mp hok.1, fun mem hdg => herkOK_sound H.hc hok mem hdg⟩
+  · intro gd
+    obtain ⟨g, hg, hok⟩ := herk_branch_10_ok side alpha beta a c H gd
+    exact ⟨g, hg, (herk_illegal_none_iff g).mp hok.1, fun mem hdg => herkOK_sound H.hc hok mem hdg⟩
 
 /-- for a non-conjugated C the complex `herk` runs exactly `herk_plain` -/
 theorem herk_eq_plain {nd : Bool} {side : Filling} {alpha beta : R} {a c : Mat} (hc : c.cj = false) :
@@ -656,61 +583,6 @@ theorem herk_eq_plain {nd : Bool} {side : Filling} {alpha beta : R} {a c : Mat} 
   unfold Gen.herk herk_plain
   simp only [hc, Bool.false_eq_true, if_false]
   rfl
-
-/-! ## herk (complex) and trsm: findings
-
-  The correctness of the leaves of `trsm` is NOT proved here (no certificate/soundness lemma for xTRSM: its specification is
-  an equation, the reference semantics a substitution algorithm): it is validated by the differential run only.
-  What is proved here: the leaves below are wrong. -/
-
-structure HerkCounterexample (guard : Filling → Mat → Mat → Prop) (call : Filling → GInt → GInt → Mat → Mat → Call GInt) (side : Filling) (a c : Mat) : Prop where
-  wa : a.WF
-  wc : c.WF
-  sizes : a.n0 = c.n0 ∧ c.n1 = c.n0 ∧ c.cj = false
-  guard : guard side a c
-  bad : ∃ g : RankKCall GInt, call side 1 ⟨2, 0⟩ a c = .herk g ∧ (g.illegal true true ≠ none ∨ ¬ HerkSpec 1 ⟨2, 0⟩ side a c zmem (g.execHerk zmem))
-
-/-- herk.hpp:140 — a contiguous n×1 matrix A (both strides 1) into a column-major C: lda = 1, XERBLA parameter 7 -/
-theorem finding_herk_branch_1 : HerkCounterexample herk.guard_1 herk.call_1 .upper ⟨0, 1, 1, 2, 1, false⟩ ⟨200, 1, 2, 2, 2, false⟩ :=
-  ⟨by wf_dec, by wf_dec, by decide, by decide, _, rfl, Or.inl (by decide)⟩
-
-/-- herk.hpp:124 — the same with a conjugated A and a row-major C -/
-theorem finding_herk_branch_9 : HerkCounterexample herk.guard_9 herk.call_9 .lower ⟨0, 1, 1, 3, 1, true⟩ ⟨200, 4, 1, 3, 3, false⟩ :=
-  ⟨by wf_dec, by wf_dec, by decide, by decide, _, rfl, Or.inl (by decide)⟩
-
-/-- herk.hpp:130 — conj(A) row-major into a row-major C: the call computes Aᴴ·A of the UNDERLYING matrix, i.e. the complex
-    conjugate of the requested conj(A)·conj(A)ᴴ -/
-theorem finding_herk_branch_11 : HerkCounterexample herk.guard_11 herk.call_11 .upper ⟨0, 4, 1, 3, 1, true⟩ ⟨200, 6, 1, 3, 3, false⟩ :=
-  ⟨by wf_dec, by wf_dec, by decide, by decide, _, rfl,
-   Or.inr (fun h => absurd (h.elems 0 1 (by decide) (by decide) (by decide) (by decide) (by decide) (by decide)) (by decide))⟩
-
-structure TrsmCounterexample (side : Side) (fill : Filling) (diag : Diag) (guard : Side → Filling → Diag → Mat → Mat → Prop)
-    (call : Side → Filling → Diag → GInt → Mat → Mat → Call GInt) (a b : Mat) : Prop where
-  wa : a.WF
-  wb : b.WF
-  square : a.n0 = a.n1 ∧ (side = .left → a.n0 = b.n0) ∧ (side = .right → a.n0 = b.n1)
-  guard : guard side fill diag a b
-  bad : ∃ g : TrsmCall GInt, call side fill diag 1 a b = .trsm g ∧ g.illegal ≠ none
-
-/-- trsm.hpp:92 — B a contiguous m×1 matrix (both strides 1) is taken for column-major with ldb = 1: XERBLA parameter 11 -/
-theorem finding_trsm_branch_10 : TrsmCounterexample .left .lower .nonUnit trsm.guard_10 trsm.call_10 ⟨0, 1, 6, 2, 2, false⟩ ⟨100, 1, 1, 2, 1, false⟩ :=
-  ⟨by wf_dec, by wf_dec, by decide, by decide, _, rfl, by decide⟩
-
-/-- trsm.hpp:93 — B a 1×n matrix with both strides 1 is taken for row-major with ldb = 1 -/
-theorem finding_trsm_branch_13 : TrsmCounterexample .right .lower .nonUnit trsm.guard_13 trsm.call_13 ⟨0, 3, 1, 3, 3, false⟩ ⟨100, 1, 1, 1, 3, false⟩ :=
-  ⟨by wf_dec, by wf_dec, by decide, by decide, _, rfl, by decide⟩
-
-/-- trsm.hpp:98 — conj(A), B 1×n with both strides 1 -/
-theorem finding_trsm_branch_5 : TrsmCounterexample .right .upper .unit trsm.guard_5 trsm.call_5 ⟨0, 1, 5, 4, 4, true⟩ ⟨100, 1, 1, 1, 4, false⟩ :=
-  ⟨by wf_dec, by wf_dec, by decide, by decide, _, rfl, by decide⟩
-
-/-- trsm.hpp:99 — conj(A), B m×1 with both strides 1 -/
-theorem finding_trsm_branch_6 : TrsmCounterexample .left .upper .nonUnit trsm.guard_6 trsm.call_6 ⟨0, 8, 1, 3, 3, true⟩ ⟨100, 1, 1, 3, 1, false⟩ :=
-  ⟨by wf_dec, by wf_dec, by decide, by decide, _, rfl, by decide⟩
-
-/-- trsm.hpp:102 — conj(B) m×1 with both strides 1 -/
-theorem finding_trsm_branch_8 : TrsmCounterexample .left .lower .unit trsm.guard_8 trsm.call_8 ⟨0, 2, 1, 2, 2, false⟩ ⟨100, 1, 1, 2, 1, true⟩ :=
-  ⟨by wf_dec, by wf_dec, by decide, by decide, _, rfl, by decide⟩
 
 /-! ## level 1: axpy, scal, copy, swap, dot (axpy.hpp, scal.hpp, copy.hpp, swap.hpp, dot.hpp) -/
 section level1
@@ -797,47 +669,47 @@ theorem swap_correct {nd : Bool} {x y : Vec} {t : Nat} {cl : Call R}
   subst hc
   exact ⟨_, rfl, fun mem => swap_sound (g := ⟨x.n, 0, x.base, x.inc, y.base, y.inc⟩) ⟨hn, rfl, rfl, rfl, rfl, hx, hy, hxi, hyi⟩ hn hdis mem⟩
 
-theorem dotResult_dot {ty : Char} {g : L1Call R} {mem : Mem R} {v : R} (h : Front.dotResult ty (.dot g) mem = some v) :
-    v = dotVal false g.n g.x g.incx g.y g.incy mem := by
-  simp only [Front.dotResult] at h
-  by_cases c : ty = 's' ∧ g.n ≤ 0
-  · rw [if_pos c] at h; cases h
-  · rw [if_neg c] at h; injection h with h; exact h.symm
 
-theorem dotResult_dotu {ty : Char} {g : L1Call R} {mem : Mem R} {v : R} (h : Front.dotResult ty (.dotu g) mem = some v) :
-    v = dotVal false g.n g.x g.incx g.y g.incy mem := by
-  simp only [Front.dotResult] at h
-  by_cases c : g.n ≤ 0
-  · rw [if_pos c] at h; cases h
-  · rw [if_neg c] at h; injection h with h; exact h.symm
+theorem dotResult_dot {ty : Char} {g : L1Call R} {mem : Mem R} :
+    Front.dotResult ty (.dot g) mem = some (dotVal false g.n g.x g.incx g.y g.incy mem) := by
+  simp only [Front.dotResult]
+  rw [if_neg]
+  intro c
+  exact absurd c.2.2 (by decide)
 
-theorem dotResult_dotc {ty : Char} {g : L1Call R} {mem : Mem R} {v : R} (h : Front.dotResult ty (.dotc g) mem = some v) :
-    v = dotVal true g.n g.x g.incx g.y g.incy mem := by
-  simp only [Front.dotResult] at h
-  injection h with h; exact h.symm
+theorem dotResult_dotu {ty : Char} {g : L1Call R} {mem : Mem R} :
+    Front.dotResult ty (.dotu g) mem = some (dotVal false g.n g.x g.incx g.y g.incy mem) := by
+  simp only [Front.dotResult]
+  rw [if_neg]
+  intro c
+  exact absurd c.2 (by decide)
+
+theorem dotResult_dotc {ty : Char} {g : L1Call R} {mem : Mem R} :
+    Front.dotResult ty (.dotc g) mem = some (dotVal true g.n g.x g.incx g.y g.incy mem) := rfl
 
 /-- Σ x_i·y_i on the logical contents -/
 def dotSpec (x y : Vec) (mem : Mem R) : R := sumZ x.n (fun i => x.load mem i * y.load mem i)
 
-/-- **dot_correct (partial)** — `blas::dot(x, y)` with x, y, or one of them conjugated (`blas::C`): when a value is delivered it is
-    Σ x_i·y_i on the logical contents; memory is not modified by the routine.  A value IS delivered except for n = 0 with
-    float or (non-conjugated) complex elements (`finding_dot_empty`). -/
-theorem dot_correct_partial {nd cplx : Bool} {ty : Char} {x y : Vec} {t : Nat} {cl : Call R} {v : R} (mem : Mem R)
+/-- **dot_correct** (FULL) — `blas::dot(x, y)` with x, y, or one of them conjugated (`blas::C`), any element type `ty`: a value
+    IS delivered (also for empty vectors: core.hpp guards its xGEMV calls, `coreDotGemvGuardsEmpty`) and it is Σ x_i·y_i on the
+    logical contents; memory is not modified by the routine. -/
+theorem dot_correct {nd cplx : Bool} {ty : Char} {x y : Vec} {t : Nat} {cl : Call R} (mem : Mem R)
     (hn : x.n = y.n) (hc : cplx = false → x.cj = false ∧ y.cj = false)
-    (h : Front.dot nd cplx x y = .call t cl) (hv : Front.dotResult ty cl mem = some v) : v = dotSpec x y mem := by
+    (h : Front.dot nd cplx x y = .call t cl) : Front.dotResult ty cl mem = some (dotSpec x y mem) := by
   unfold Front.dot at h
   by_cases c1 : ¬ nd = true ∧ ¬ (x.n = y.n)
   · rw [if_pos c1] at h; cases h
   rw [if_neg c1] at h
   unfold dotSpec
-  refine dot_n.elim h (fun t cl => Front.dotResult ty cl mem = some v → v = sumZ x.n (fun i => x.load mem i * y.load mem i)) ?_ ?_ ?_ ?_ hv
+  refine dot_n.elim h (fun _ cl => Front.dotResult ty cl mem = some (sumZ x.n (fun i => x.load mem i * y.load mem i))) ?_ ?_ ?_ ?_
   · -- dotc(x_u, y): x conjugated
-    intro g hv
+    intro g
     unfold dot_n.guard_2 at g
     have hx : x.cj = true := by cases hh : x.cj <;> cases hh2 : y.cj <;> simp_all
     have hy : y.cj = false := by cases hh : x.cj <;> cases hh2 : y.cj <;> simp_all
-    unfold dot_n.call_2 at hv
-    rw [dotResult_dotc hv]
+    unfold dot_n.call_2
+    rw [dotResult_dotc]
+    congr 1
     unfold dotVal
     apply sumZ_congr
     intro i _ _
@@ -845,12 +717,13 @@ theorem dot_correct_partial {nd cplx : Bool} {ty : Char} {x y : Vec} {t : Nat} {
     rw [hx, hy]
     rfl
   · -- dotc(y_u, x): y conjugated
-    intro g hv
+    intro g
     unfold dot_n.guard_3 at g
     have hx : x.cj = false := by cases hh : x.cj <;> cases hh2 : y.cj <;> simp_all
     have hy : y.cj = true := by cases hh : x.cj <;> cases hh2 : y.cj <;> simp_all
-    unfold dot_n.call_3 at hv
-    rw [dotResult_dotc hv]
+    unfold dot_n.call_3
+    rw [dotResult_dotc]
+    congr 1
     unfold dotVal
     apply sumZ_congr
     intro i _ _
@@ -858,12 +731,13 @@ theorem dot_correct_partial {nd cplx : Bool} {ty : Char} {x y : Vec} {t : Nat} {
     rw [hx, hy, CRing.mul_comm]
     rfl
   · -- dotu(x, y)
-    intro g hv
+    intro g
     unfold dot_n.guard_4 at g
     have hx : x.cj = false := by cases hh : x.cj <;> cases hh2 : y.cj <;> simp_all
     have hy : y.cj = false := by cases hh : x.cj <;> cases hh2 : y.cj <;> simp_all
-    unfold dot_n.call_4 at hv
-    rw [dotResult_dotu hv]
+    unfold dot_n.call_4
+    rw [dotResult_dotu]
+    congr 1
     unfold dotVal
     apply sumZ_congr
     intro i _ _
@@ -871,12 +745,13 @@ theorem dot_correct_partial {nd cplx : Bool} {ty : Char} {x y : Vec} {t : Nat} {
     rw [hx, hy]
     rfl
   · -- real dot(x, y)
-    intro g hv
+    intro g
     unfold dot_n.guard_5 at g
     have hcf : cplx = false := by cases hh : cplx <;> simp_all
     obtain ⟨hx, hy⟩ := hc hcf
-    unfold dot_n.call_5 at hv
-    rw [dotResult_dot hv]
+    unfold dot_n.call_5
+    rw [dotResult_dot]
+    congr 1
     unfold dotVal
     apply sumZ_congr
     intro i _ _
@@ -884,212 +759,43 @@ theorem dot_correct_partial {nd cplx : Bool} {ty : Char} {x y : Vec} {t : Nat} {
     rw [hx, hy]
     rfl
 
-/-- dot of EMPTY float vectors (core.hpp:295: sgemv('N', 1, 0, …) returns at once): no value is delivered although the
-    mathematical result is 0.  Same for complex `dotu` (core.hpp:357, 362). -/
-theorem finding_dot_empty :
-    Front.dot (R := Int) false false ⟨0, 1, 0, false⟩ ⟨100, 1, 0, false⟩ = .call 5 (dot_n.call_5 0 ⟨0, 1, 0, false⟩ ⟨100, 1, 0, false⟩) ∧
-    Front.dotResult 's' (dot_n.call_5 (R := Int) 0 ⟨0, 1, 0, false⟩ ⟨100, 1, 0, false⟩) (fun a => a) = none ∧
-    Front.dotResult 'z' (dot_n.call_4 (R := GInt) 0 ⟨0, 1, 0, false⟩ ⟨100, 1, 0, false⟩) zmem = none := by
-  refine ⟨by rfl, by decide, by decide⟩
-
 end level1
 
-/-! ## dispatch_legal in assertion-enabled builds (FULL for gemm)
+/-! ## dispatch_legal (FULL, every build)
 
-  `core::gemm` (core.hpp:513-533) re-checks the leading dimensions with BOOST_MULTI_ASSERT1, which throws when NDEBUG is not
-  defined.  Hence in an assertion-enabled build every call of `gemm_n` that reaches the Fortran routine is legal — the wrong
-  leading dimensions of the special-case leaves surface as `std::logic_error` (a rejection), not as a silent XERBLA return.
-  With NDEBUG only the `ldc` check remains and the statement is false (findings with "illegal" in their description). -/
+  Every call a dispatch chain issues is legal for the reference BLAS (no XERBLA), whether or not assertions are compiled in.
+  For gemm, gemv, syrk and herk this is part of the certificates above (`GemmOK`, `GemvOK`, `SyrkOK`, `HerkOK` contain
+  `illegal = none`); here the corollary for gemm and the statement for trsm (whose result is validated by the differential
+  run only). -/
 
-def callLegal : Call R → Prop
-  | .gemm g => g.Legal
-  | _ => True
-
-macro "legal_leaf" : tactic => `(tactic| (
-  intro _ hc
-  simp only [Front.coreThrows] at hc
-  simp at hc
-  simp only [maxI_le_iff, le_maxI_iff, Mat.Lin] at *
-  simp (config := {decide := true}) only [callLegal, GemmCall.Legal, isTrans, true_and, and_true, if_true, if_false]
-  omega))
-
-theorem gemm_n_nn_legal_debug {alpha beta : R} {a b c : Mat} {t : Nat} {cl : Call R}
-    (la : a.Lin) (lb : b.Lin) (lc : c.Lin)
-    (h : gemm_n_nn false alpha beta a b c = .call t cl) (hc : Front.coreThrows false cl = false) : callLegal cl := by
-  revert hc
-  refine gemm_n_nn.elim h (fun t cl => Front.coreThrows false cl = false → callLegal cl) ?_ ?_ ?_ ?_ ?_ ?_ ?_ ?_ ?_ ?_ ?_ ?_ ?_ ?_ ?_ ?_ ?_ ?_
-  · unfold gemm_n_nn.call_2; legal_leaf
-  · unfold gemm_n_nn.call_3; legal_leaf
-  · unfold gemm_n_nn.call_4; legal_leaf
-  · unfold gemm_n_nn.call_5; legal_leaf
-  · unfold gemm_n_nn.call_6; legal_leaf
-  · unfold gemm_n_nn.call_7; legal_leaf
-  · unfold gemm_n_nn.call_8; legal_leaf
-  · unfold gemm_n_nn.call_9; legal_leaf
-  · unfold gemm_n_nn.call_10; legal_leaf
-  · unfold gemm_n_nn.call_11; legal_leaf
-  · unfold gemm_n_nn.call_12; legal_leaf
-  · unfold gemm_n_nn.call_13; legal_leaf
-  · unfold gemm_n_nn.call_14; legal_leaf
-  · unfold gemm_n_nn.call_15; legal_leaf
-  · unfold gemm_n_nn.call_16; legal_leaf
-  · unfold gemm_n_nn.call_17; legal_leaf
-  · unfold gemm_n_nn.call_18; legal_leaf
-  · unfold gemm_n_nn.call_19; legal_leaf
-
-theorem gemm_n_nc_legal_debug {alpha beta : R} {a b c : Mat} {t : Nat} {cl : Call R}
-    (la : a.Lin) (lb : b.Lin) (lc : c.Lin)
-    (h : gemm_n_nc false alpha beta a b c = .call t cl) (hc : Front.coreThrows false cl = false) : callLegal cl := by
-  revert hc
-  refine gemm_n_nc.elim h (fun t cl => Front.coreThrows false cl = false → callLegal cl) ?_ ?_ ?_ ?_ ?_ ?_
-  · unfold gemm_n_nc.call_2; legal_leaf
-  · unfold gemm_n_nc.call_3; legal_leaf
-  · unfold gemm_n_nc.call_4; legal_leaf
-  · unfold gemm_n_nc.call_5; legal_leaf
-  · unfold gemm_n_nc.call_6; legal_leaf
-  · unfold gemm_n_nc.call_7; legal_leaf
-
-theorem gemm_n_cn_legal_debug {alpha beta : R} {a b c : Mat} {t : Nat} {cl : Call R}
-    (la : a.Lin) (lb : b.Lin) (lc : c.Lin)
-    (h : gemm_n_cn false alpha beta a b c = .call t cl) (hc : Front.coreThrows false cl = false) : callLegal cl := by
-  revert hc
-  refine gemm_n_cn.elim h (fun t cl => Front.coreThrows false cl = false → callLegal cl) ?_ ?_
-  · unfold gemm_n_cn.call_2; legal_leaf
-  · unfold gemm_n_cn.call_3; legal_leaf
-
-theorem gemm_n_cc_legal_debug {alpha beta : R} {a b c : Mat} {t : Nat} {cl : Call R}
-    (la : a.Lin) (lb : b.Lin) (lc : c.Lin)
-    (h : gemm_n_cc false alpha beta a b c = .call t cl) (hc : Front.coreThrows false cl = false) : callLegal cl := by
-  revert hc
-  refine gemm_n_cc.elim h (fun t cl => Front.coreThrows false cl = false → callLegal cl) ?_
-  · unfold gemm_n_cc.call_2; legal_leaf
-
-/-- **dispatch_legal, assertion-enabled builds (full).**  Every BLAS call that `gemm_n` issues and that passes the checks of
-    `core::gemm` is legal for the reference BLAS — for all sizes, strides and conjugation patterns. -/
-theorem gemm_dispatch_legal_debug {alpha beta : R} {a b c : Mat} {t : Nat} {cl : Call R}
-    (wa : a.WF) (wb : b.WF) (wc : c.WF)
-    (h : gemm_n false alpha beta a b c = .call t cl) (hc : Front.coreThrows false cl = false) : callLegal cl := by
-  unfold gemm_n at h
-  cases ha : a.cj <;> cases hb : b.cj <;> simp only [ha, hb] at h
-  · exact gemm_n_nn_legal_debug wa.lin wb.lin wc.lin h hc
-  · exact gemm_n_nc_legal_debug wa.lin wb.lin wc.lin h hc
-  · exact gemm_n_cn_legal_debug wa.lin wb.lin wc.lin h hc
-  · exact gemm_n_cc_legal_debug wa.lin wb.lin wc.lin h hc
-
-/-! ## Findings: leaves of `gemm_n` that are wrong
-
-  Each theorem exhibits operands INSIDE the view invariants and inside the leaf's guard for which the call issued by the
-  leaf is illegal for the reference BLAS (XERBLA: nothing is computed) or is legal but its post-state is not
-  alpha·A·B + beta·C.  The ring is the Gaussian integers, alpha = 1, beta = 2 + i, memory `zmem`.  The same classes are
-  reproduced against the real library by harness/blas.cpp (findings/C13.json). -/
-
-structure GemmCounterexample (guard : Mat → Mat → Mat → Prop) (call : GInt → GInt → Mat → Mat → Mat → Call GInt) (a b c : Mat) : Prop where
-  shapes : GemmShapes a b c
-  noconjC : c.cj = false
-  guard : guard a b c
-  bad : ∃ g : GemmCall GInt, call 1 ⟨2, 1⟩ a b c = .gemm g ∧ (g.illegal ≠ none ∨ ¬ GemmSpec 1 ⟨2, 1⟩ a b c zmem (g.exec zmem))
-
-/-- gemm.hpp:145 [(((a.s0 = 1) ∧ (b.s0 = 1)) ∧ (c.s1 = 1))] at size class m1ngk0: legal call, element (0,1) of the result is wrong -/
-theorem finding_gemm_cc_branch_2 : GemmCounterexample gemm_n_cc.guard_2 gemm_n_cc.call_2 ⟨0, 1, 4, 1, 0, true⟩ ⟨100, 1, 1, 0, 2, true⟩ ⟨200, 2, 1, 1, 2, false⟩ :=
-  ⟨by shapes_dec, rfl, by decide, _, rfl, Or.inr (fun h => absurd (h.elems 0 1 (by decide) (by decide) (by decide) (by decide)) (by decide))⟩
-
-/-- gemm.hpp:128 [(((a.s0 = 1) ∧ (b.s1 = 1)) ∧ (c.s1 = 1))] at size class mgn1k0: illegal call (XERBLA parameter 10) -/
-theorem finding_gemm_cn_branch_2 : GemmCounterexample gemm_n_cn.guard_2 gemm_n_cn.call_2 ⟨0, 1, 1, 2, 0, true⟩ ⟨100, 1, 1, 0, 1, false⟩ ⟨200, 1, 1, 2, 1, false⟩ :=
-  ⟨by shapes_dec, rfl, by decide, _, rfl, Or.inl (by decide)⟩
-
-/-- gemm.hpp:107 [(((a.s0 = 1) ∧ (b.s0 = 1)) ∧ (c.s0 = 1))] at size class m1ngk0: legal call, element (0,1) of the result is wrong -/
-theorem finding_gemm_nc_branch_2 : GemmCounterexample gemm_n_nc.guard_2 gemm_n_nc.call_2 ⟨0, 1, 4, 1, 0, false⟩ ⟨100, 1, 1, 0, 2, true⟩ ⟨200, 1, 6, 1, 2, false⟩ :=
-  ⟨by shapes_dec, rfl, by decide, _, rfl, Or.inr (fun h => absurd (h.elems 0 1 (by decide) (by decide) (by decide) (by decide)) (by decide))⟩
-
-/-- gemm.hpp:109 [(((a.s0 = 1) ∧ (b.s0 = 1)) ∧ (c.s1 = 1))] at size class m1ngk0: legal call, element (0,1) of the result is wrong -/
-theorem finding_gemm_nc_branch_3 : GemmCounterexample gemm_n_nc.guard_3 gemm_n_nc.call_3 ⟨0, 1, 4, 1, 0, false⟩ ⟨100, 1, 1, 0, 2, true⟩ ⟨200, 2, 1, 1, 2, false⟩ :=
-  ⟨by shapes_dec, rfl, by decide, _, rfl, Or.inr (fun h => absurd (h.elems 0 1 (by decide) (by decide) (by decide) (by decide)) (by decide))⟩
-
-/-- gemm.hpp:105 [(((a.s1 = 1) ∧ (b.s0 = 1)) ∧ (c.s0 = 1))] at size class m1ngk0: legal call, element (0,1) of the result is wrong -/
-theorem finding_gemm_nc_branch_4 : GemmCounterexample gemm_n_nc.guard_4 gemm_n_nc.call_4 ⟨0, 1, 1, 1, 0, false⟩ ⟨100, 1, 1, 0, 4, true⟩ ⟨200, 1, 4, 1, 4, false⟩ :=
-  ⟨by shapes_dec, rfl, by decide, _, rfl, Or.inr (fun h => absurd (h.elems 0 1 (by decide) (by decide) (by decide) (by decide)) (by decide))⟩
-
-/-- gemm.hpp:102 [(((a.s1 = 1) ∧ (b.s0 = 1)) ∧ (c.s1 = 1)) ; (a.n0 = 1)] at size class m1ngk1: legal call, element (0,1) of the result is wrong -/
-theorem finding_gemm_nc_branch_6 : GemmCounterexample gemm_n_nc.guard_6 gemm_n_nc.call_6 ⟨0, 1, 1, 1, 1, false⟩ ⟨100, 1, 3, 1, 3, true⟩ ⟨200, 6, 1, 1, 3, false⟩ :=
-  ⟨by shapes_dec, rfl, by decide, _, rfl, Or.inr (fun h => absurd (h.elems 0 1 (by decide) (by decide) (by decide) (by decide)) (by decide))⟩
-
-/-- gemm.hpp:100 [(((a.s1 = 1) ∧ (b.s1 = 1)) ∧ (c.s1 = 1))] at size class mgn1k1: legal call, element (1,0) of the result is wrong -/
-theorem finding_gemm_nc_branch_7 : GemmCounterexample gemm_n_nc.guard_7 gemm_n_nc.call_7 ⟨0, 4, 1, 2, 1, false⟩ ⟨100, 1, 1, 1, 1, true⟩ ⟨200, 1, 1, 2, 1, false⟩ :=
-  ⟨by shapes_dec, rfl, by decide, _, rfl, Or.inr (fun h => absurd (h.elems 1 0 (by decide) (by decide) (by decide) (by decide)) (by decide))⟩
-
-/-- gemm.hpp:68 [(((a.s0 = 1) ∧ (b.s1 = 1)) ∧ (c.s0 = 1))] at size class mgngk0: illegal call (XERBLA parameter 10) -/
-theorem finding_gemm_nn_branch_5 : GemmCounterexample gemm_n_nn.guard_5 gemm_n_nn.call_5 ⟨0, 1, 4, 4, 0, false⟩ ⟨100, 1, 1, 0, 3, false⟩ ⟨200, 1, 8, 4, 3, false⟩ :=
-  ⟨by shapes_dec, rfl, by decide, _, rfl, Or.inl (by decide)⟩
-
-/-- gemm.hpp:67 [(((a.s0 = 1) ∧ (b.s1 = 1)) ∧ (c.s0 = 1)) ; (a.n0 = 1)] at size class m1n1kg: legal call, element (0,0) of the result is wrong -/
-theorem finding_gemm_nn_branch_6 : GemmCounterexample gemm_n_nn.guard_6 gemm_n_nn.call_6 ⟨0, 1, 4, 1, 2, false⟩ ⟨100, 4, 1, 2, 1, false⟩ ⟨200, 1, 4, 1, 1, false⟩ :=
-  ⟨by shapes_dec, rfl, by decide, _, rfl, Or.inr (fun h => absurd (h.elems 0 0 (by decide) (by decide) (by decide) (by decide)) (by decide))⟩
-
-/-- gemm.hpp:65 [(((a.s0 = 1) ∧ (b.s1 = 1)) ∧ (c.s1 = 1))] at size class mgngk0: illegal call (XERBLA parameter 8) -/
-theorem finding_gemm_nn_branch_7 : GemmCounterexample gemm_n_nn.guard_7 gemm_n_nn.call_7 ⟨0, 1, 8, 3, 0, false⟩ ⟨100, 1, 1, 0, 4, false⟩ ⟨200, 7, 1, 3, 4, false⟩ :=
-  ⟨by shapes_dec, rfl, by decide, _, rfl, Or.inl (by decide)⟩
-
-/-- gemm.hpp:74 [(((a.s1 = 1) ∧ (b.s0 = 1)) ∧ (c.s0 = 1))] at size class mgn1kg: legal call, element (0,0) of the result is wrong -/
-theorem finding_gemm_nn_branch_9 : GemmCounterexample gemm_n_nn.guard_9 gemm_n_nn.call_9 ⟨0, 3, 1, 3, 3, false⟩ ⟨100, 1, 5, 3, 1, false⟩ ⟨200, 1, 5, 3, 1, false⟩ :=
-  ⟨by shapes_dec, rfl, by decide, _, rfl, Or.inr (fun h => absurd (h.elems 0 0 (by decide) (by decide) (by decide) (by decide)) (by decide))⟩
-
-/-- gemm.hpp:73 [(((a.s1 = 1) ∧ (b.s0 = 1)) ∧ (c.s0 = 1)) ; ((a.n1 = 1) ∧ (b.n1 = 1))] at size class mgn1k1: legal call, element (1,0) of the result is wrong -/
-theorem finding_gemm_nn_branch_11 : GemmCounterexample gemm_n_nn.guard_11 gemm_n_nn.call_11 ⟨0, 1, 1, 2, 1, false⟩ ⟨100, 1, 6, 1, 1, false⟩ ⟨200, 1, 2, 2, 1, false⟩ :=
-  ⟨by shapes_dec, rfl, by decide, _, rfl, Or.inr (fun h => absurd (h.elems 1 0 (by decide) (by decide) (by decide) (by decide)) (by decide))⟩
-
-/-- gemm.hpp:71 [(((a.s1 = 1) ∧ (b.s0 = 1)) ∧ (c.s0 = 1)) ; (a.n0 = 1)] at size class m1ngk1: legal call, element (0,1) of the result is wrong -/
-theorem finding_gemm_nn_branch_12 : GemmCounterexample gemm_n_nn.guard_12 gemm_n_nn.call_12 ⟨0, 1, 1, 1, 1, false⟩ ⟨100, 1, 4, 1, 4, false⟩ ⟨200, 1, 4, 1, 4, false⟩ :=
-  ⟨by shapes_dec, rfl, by decide, _, rfl, Or.inr (fun h => absurd (h.elems 0 1 (by decide) (by decide) (by decide) (by decide)) (by decide))⟩
-
-/-- gemm.hpp:76 [(((a.s1 = 1) ∧ (b.s0 = 1)) ∧ (c.s1 = 1)) ; (a.n0 = 1)] at size class m1ngk1: legal call, element (0,1) of the result is wrong -/
-theorem finding_gemm_nn_branch_14 : GemmCounterexample gemm_n_nn.guard_14 gemm_n_nn.call_14 ⟨0, 3, 1, 1, 1, false⟩ ⟨100, 1, 2, 1, 4, false⟩ ⟨200, 4, 1, 1, 4, false⟩ :=
-  ⟨by shapes_dec, rfl, by decide, _, rfl, Or.inr (fun h => absurd (h.elems 0 1 (by decide) (by decide) (by decide) (by decide)) (by decide))⟩
-
-/-- gemm.hpp:62 [(((a.s1 = 1) ∧ (b.s1 = 1)) ∧ (c.s0 = 1))] at size class mgngk0: illegal call (XERBLA parameter 10) -/
-theorem finding_gemm_nn_branch_15 : GemmCounterexample gemm_n_nn.guard_15 gemm_n_nn.call_15 ⟨0, 3, 1, 3, 0, false⟩ ⟨100, 1, 1, 0, 4, false⟩ ⟨200, 1, 3, 3, 4, false⟩ :=
-  ⟨by shapes_dec, rfl, by decide, _, rfl, Or.inl (by decide)⟩
-
-/-- gemm.hpp:61 [(((a.s1 = 1) ∧ (b.s1 = 1)) ∧ (c.s0 = 1)) ; (a.n0 = 1)] at size class m1n1kg: legal call, element (0,0) of the result is wrong -/
-theorem finding_gemm_nn_branch_16 : GemmCounterexample gemm_n_nn.guard_16 gemm_n_nn.call_16 ⟨0, 6, 1, 1, 4, false⟩ ⟨100, 2, 1, 4, 1, false⟩ ⟨200, 1, 2, 1, 1, false⟩ :=
-  ⟨by shapes_dec, rfl, by decide, _, rfl, Or.inr (fun h => absurd (h.elems 0 0 (by decide) (by decide) (by decide) (by decide)) (by decide))⟩
-
-/-- gemm.hpp:59 [(((a.s1 = 1) ∧ (b.s1 = 1)) ∧ (c.s1 = 1))] at size class mgngk0: illegal call (XERBLA parameter 8) -/
-theorem finding_gemm_nn_branch_17 : GemmCounterexample gemm_n_nn.guard_17 gemm_n_nn.call_17 ⟨0, 4, 1, 2, 0, false⟩ ⟨100, 1, 1, 0, 2, false⟩ ⟨200, 5, 1, 2, 2, false⟩ :=
-  ⟨by shapes_dec, rfl, by decide, _, rfl, Or.inl (by decide)⟩
-
-/-- gemm.hpp:57 [(((a.s1 = 1) ∧ (b.s1 = 1)) ∧ (c.s1 = 1)) ; ((a.n0 = 1) ∧ (b.n1 = 1))] at size class m1n1kg: legal call, element (0,0) of the result is wrong -/
-theorem finding_gemm_nn_branch_18 : GemmCounterexample gemm_n_nn.guard_18 gemm_n_nn.call_18 ⟨0, 1, 1, 1, 3, false⟩ ⟨100, 5, 1, 3, 1, false⟩ ⟨200, 1, 1, 1, 1, false⟩ :=
-  ⟨by shapes_dec, rfl, by decide, _, rfl, Or.inr (fun h => absurd (h.elems 0 0 (by decide) (by decide) (by decide) (by decide)) (by decide))⟩
-
-/-- gemm.hpp:58 [(((a.s1 = 1) ∧ (b.s1 = 1)) ∧ (c.s1 = 1)) ; (a.n0 = 1)] at size class m1ngk0: illegal call (XERBLA parameter 8) -/
-theorem finding_gemm_nn_branch_19 : GemmCounterexample gemm_n_nn.guard_19 gemm_n_nn.call_19 ⟨0, 4, 1, 1, 0, false⟩ ⟨100, 1, 1, 0, 2, false⟩ ⟨200, 2, 1, 1, 2, false⟩ :=
-  ⟨by shapes_dec, rfl, by decide, _, rfl, Or.inl (by decide)⟩
-
-/-! ## trsm: dispatch_legal in assertion-enabled builds (full) -/
+/-- every xGEMM call of `gemm_n` is legal -/
+theorem gemm_dispatch_legal {nd : Bool} {alpha beta : R} {a b c : Mat} {t : Nat} {cl : Call R}
+    (hs : GemmShapes a b c) (hc : c.cj = false) (h : gemm_n nd alpha beta a b c = .call t cl) :
+    ∃ g, cl = .gemm g ∧ g.illegal = none := by
+  obtain ⟨g, hg, hok⟩ := gemm_n_certified hs hc h
+  exact ⟨g, hg, hok.1⟩
 
 def trsmLegal : Call R → Prop
   | .trsm g => g.Legal
   | _ => True
 
 macro "trsm_legal_leaf" s:ident f:ident d:ident : tactic => `(tactic| (
-  intro _ hc
+  intro hg
   cases $s:ident <;> cases $f:ident <;> cases $d:ident <;>
-  (simp only [Front.coreThrows, Side.char, Side.swap, Filling.char, Filling.flip, Diag.char] at hc
-   simp at hc
-   simp only [maxI_le_iff, le_maxI_iff, Mat.Lin] at *
-   simp (config := {decide := true}) only [trsmLegal, TrsmCall.Legal, isTrans, Side.char, Side.swap, Filling.char, Filling.flip, Diag.char, true_and, and_true, if_true, if_false, true_or, or_true] at *
+  (simp only [Mat.Lin, legalLd] at *
+   simp (config := {decide := true}) only [trsmLegal, TrsmCall.Legal, isTrans, Side.char, Side.swap, Filling.char, Filling.flip, Diag.char, true_and, and_true, if_true, if_false, true_or, or_true, true_implies, reduceCtorEq, false_implies, ne_eq, not_true_eq_false, not_false_eq_true] at *
    omega)))
 
-/-- **dispatch_legal for trsm, assertion-enabled builds (full).**  `core::trsm` (core.hpp:542-559) re-checks lda and ldb with
-    BOOST_MULTI_ASSERT1, so every xTRSM call that reaches the Fortran routine in such a build is legal; with NDEBUG the checks
-    vanish and the leaves of `finding_trsm_branch_*` issue illegal calls (silent no-op). -/
-theorem trsm_dispatch_legal_debug {side : Side} {fill : Filling} {diag : Diag} {alpha : R} {a b : Mat} {t : Nat} {cl : Call R}
+/-- **dispatch_legal for trsm (FULL).**  A is (at least) as large as the side of B it multiplies (trsm.hpp:82-83 assert it) and
+    A and B have a unit stride (trsm.hpp:84-85): every xTRSM call is legal, in particular the leading dimension of a
+    right-hand side with a single row or column (`legal_ld`). -/
+theorem trsm_dispatch_legal {nd : Bool} {side : Side} {fill : Filling} {diag : Diag} {alpha : R} {a b : Mat} {t : Nat} {cl : Call R}
     (wa : a.WF) (wb : b.WF)
-    (h : Gen.trsm false side fill diag alpha a b = .call t cl) (hc : Front.coreThrows false cl = false) : trsmLegal cl := by
+    (hl : side = .left → b.n0 ≤ a.n0 ∧ b.n0 ≤ a.n1) (hr : side = .right → b.n1 ≤ a.n0 ∧ b.n1 ≤ a.n1)
+    (h : Gen.trsm nd side fill diag alpha a b = .call t cl) : trsmLegal cl := by
   have la := wa.lin
   have lb := wb.lin
-  revert hc
-  refine trsm.elim h (fun t cl => Front.coreThrows false cl = false → trsmLegal cl) ?_ ?_ ?_ ?_ ?_ ?_ ?_ ?_ ?_
+  refine trsm.elim h (fun _ cl => trsmLegal cl) ?_ ?_ ?_ ?_ ?_ ?_ ?_ ?_ ?_
   · unfold trsm.call_2; trsm_legal_leaf side fill diag
   · unfold trsm.call_3; trsm_legal_leaf side fill diag
   · unfold trsm.call_5; trsm_legal_leaf side fill diag
@@ -1100,57 +806,12 @@ theorem trsm_dispatch_legal_debug {side : Side} {fill : Filling} {diag : Diag} {
   · unfold trsm.call_12; trsm_legal_leaf side fill diag
   · unfold trsm.call_13; trsm_legal_leaf side fill diag
 
-/-! ## syrk / herk: dispatch_legal in assertion-enabled builds (full) -/
-
-def rkLegal (cplx : Bool) : Call R → Prop
-  | .syrk g => g.LegalSyrk cplx
-  | .herk g => g.LegalHerk
-  | _ => True
-
-macro "rk_legal_leaf" s:ident : tactic => `(tactic| (
-  intro _ hc
-  cases $s:ident <;>
-  (simp only [Front.coreThrows, Filling.char, Filling.flip] at hc
-   simp at hc
-   simp only [maxI_le_iff, le_maxI_iff, Mat.Lin] at *
-   simp (config := {decide := true}) only [rkLegal, RankKCall.LegalSyrk, RankKCall.LegalHerk, Filling.char, Filling.flip, true_and, and_true, if_true, if_false, true_or, or_true, false_or, or_false, and_false, false_and] at *
-   omega)))
-
-/-- `core::syrk` (core.hpp:476-489) re-checks lda and ldc: in an assertion-enabled build every xSYRK call that reaches the
-    Fortran routine is legal (all four leaves issue 'N' or 'T', legal for real and complex element types) -/
-theorem syrk_dispatch_legal_debug {cplx : Bool} {side : Filling} {alpha beta : R} {a c : Mat} {t : Nat} {cl : Call R}
-    (wa : a.WF) (wc : c.WF)
-    (h : Gen.syrk false side alpha beta a c = .call t cl) (hc : Front.coreThrows false cl = false) : rkLegal cplx cl := by
-  have la := wa.lin
-  have lc := wc.lin
-  revert hc
-  refine syrk.elim h (fun t cl => Front.coreThrows false cl = false → rkLegal cplx cl) ?_ ?_ ?_ ?_
-  · unfold syrk.call_1; rk_legal_leaf side
-  · unfold syrk.call_2; rk_legal_leaf side
-  · unfold syrk.call_3; rk_legal_leaf side
-  · unfold syrk.call_4; rk_legal_leaf side
-
-/-- the same for the complex `herk` with a non-conjugated C (`core::herk`, core.hpp:491-505) -/
-theorem herk_dispatch_legal_debug {side : Filling} {alpha beta : R} {a c : Mat} {t : Nat} {cl : Call R}
-    (wa : a.WF) (wc : c.WF)
-    (h : herk_plain false side alpha beta a c = .call t cl) (hc : Front.coreThrows false cl = false) : rkLegal true cl := by
-  have la := wa.lin
-  have lc := wc.lin
-  revert hc
-  refine herk_plain.elim h (fun t cl => Front.coreThrows false cl = false → rkLegal true cl) ?_ ?_ ?_ ?_ ?_ ?_ ?_
-  · unfold herk_plain.call_1; rk_legal_leaf side
-  · unfold herk_plain.call_4; rk_legal_leaf side
-  · unfold herk_plain.call_5; rk_legal_leaf side
-  · unfold herk_plain.call_8; rk_legal_leaf side
-  · unfold herk_plain.call_9; rk_legal_leaf side
-  · unfold herk_plain.call_10; rk_legal_leaf side
-  · unfold herk_plain.call_11; rk_legal_leaf side
-
 /-! ## rejected_is_inexpressible (partial)
 
   FULL statement: whenever a front end rejects (assertion or exception), no legal BLAS call computes the operation.  It is
   FALSE for the current code: the conjugated overloads of `gemm_n` throw "not BLAS-implemented" for combinations xGEMM can
-  express, and the special-case leaves throw (core::gemm) on expressible shapes.  Over-rejection does not violate C13.
+  express (by the mirror-image call, or by a call on the conjugate-transposed C) and some they cannot; herk rejects conj(A)
+  row-major into a row-major C, where xHERK would deliver the complex conjugate.  Over-rejection does not violate C13.
   What is proved: an assertion failure of the main overload means that some operand has no unit stride (or the sizes of B
   and C differ), and an operand with two non-unit strides and at least 2×2 elements cannot be addressed by ANY column-major
   operand descriptor (pointer, leading dimension, 'N' / 'T' / 'C'). -/
@@ -1182,30 +843,43 @@ theorem no_operand_addresses {base sr sc rows cols : Int} (hr : 2 ≤ rows) (hc 
     simp at e00 e01
     omega
 
-/-! ## Non-vacuity: the hypotheses of the main theorems are satisfiable -/
 
-macro "dom_dec" : tactic => `(tactic| (simp only [gemmDom, gemmNNDom, gemmCNDom, gemmNCDom, gemvDom, syrkDom, Mat.RowOK, Mat.ColOK, Mat.Lin]; decide))
+/-! ## Non-vacuity: the hypotheses of the main theorems are satisfiable and every kind of leaf is reached -/
 
-/-- a 2×3 sub-block of a row-major array with 5 columns, times a 3×2 sub-block (4 columns), into a 2×2 sub-block (6 columns):
-    the main leaf (gemm.hpp:59) is taken and lies in its certified domain -/
+/-- a 2×3 sub-block of a row-major array with 5 columns, times a 3×2 sub-block (4 columns), into a 2×2 sub-block (6 columns) -/
 example : ∃ t cl, gemm_n (R := Int) false 1 2 ⟨0, 5, 1, 2, 3, false⟩ ⟨100, 4, 1, 3, 2, false⟩ ⟨200, 6, 1, 2, 2, false⟩ = .call t cl ∧
-    GemmShapes ⟨0, 5, 1, 2, 3, false⟩ ⟨100, 4, 1, 3, 2, false⟩ ⟨200, 6, 1, 2, 2, false⟩ ∧
-    gemmDom t ⟨0, 5, 1, 2, 3, false⟩ ⟨100, 4, 1, 3, 2, false⟩ ⟨200, 6, 1, 2, 2, false⟩ :=
-  ⟨17, _, rfl, by shapes_dec, by dom_dec⟩
+    GemmShapes ⟨0, 5, 1, 2, 3, false⟩ ⟨100, 4, 1, 3, 2, false⟩ ⟨200, 6, 1, 2, 2, false⟩ :=
+  ⟨_, _, rfl, by shapes_dec⟩
 
-/-- conjugated A (column-major) times B (row-major): leaf 2 of the (conj A) overload -/
+/-- a single row times a matrix (the shape the removed `a_count == 1` special cases were for): a general leaf is taken -/
+example : ∃ t cl, gemm_n (R := Int) true 1 0 ⟨0, 3, 1, 1, 3, false⟩ ⟨100, 1, 3, 3, 2, false⟩ ⟨200, 1, 1, 1, 2, false⟩ = .call t cl ∧
+    GemmShapes ⟨0, 3, 1, 1, 3, false⟩ ⟨100, 1, 3, 3, 2, false⟩ ⟨200, 1, 1, 1, 2, false⟩ :=
+  ⟨_, _, rfl, by shapes_dec⟩
+
+/-- conjugated A (column-major) times B (row-major) into a row-major C: the one leaf of the (conj A) overload -/
 example : ∃ t cl, gemm_n (R := GInt) false 1 ⟨2, 1⟩ ⟨0, 1, 4, 2, 3, true⟩ ⟨100, 4, 1, 3, 2, false⟩ ⟨200, 6, 1, 2, 2, false⟩ = .call t cl ∧
-    gemmDom t ⟨0, 1, 4, 2, 3, true⟩ ⟨100, 4, 1, 3, 2, false⟩ ⟨200, 6, 1, 2, 2, false⟩ :=
-  ⟨2, _, rfl, by dom_dec⟩
+    GemmShapes ⟨0, 1, 4, 2, 3, true⟩ ⟨100, 4, 1, 3, 2, false⟩ ⟨200, 6, 1, 2, 2, false⟩ :=
+  ⟨_, _, rfl, by shapes_dec⟩
 
 /-- gemv on a padded row-major 2×3 matrix with strided vectors -/
 example : ∃ t cl, gemv_n (R := Int) false 1 2 ⟨0, 5, 1, 2, 3, false⟩ ⟨100, 2, 3, false⟩ ⟨200, 3, 2, false⟩ = .call t cl ∧
-    GemvHyp ⟨0, 5, 1, 2, 3, false⟩ ⟨100, 2, 3, false⟩ ⟨200, 3, 2, false⟩ ∧ gemvDom t ⟨0, 5, 1, 2, 3, false⟩ :=
-  ⟨5, _, rfl, ⟨by dom_dec, by decide, by decide, by decide, by decide, rfl, rfl, rfl, rfl⟩, by dom_dec⟩
+    GemvHyp ⟨0, 5, 1, 2, 3, false⟩ ⟨100, 2, 3, false⟩ ⟨200, 3, 2, false⟩ :=
+  ⟨_, _, rfl, ⟨by simp only [Mat.Lin]; decide, by decide, by decide, by decide, by decide, rfl, rfl, rfl, rfl⟩⟩
+
+/-- gemv with a matrix without columns: the xSCAL leaf -/
+example : gemv_n (R := Int) true 1 2 ⟨0, 1, 1, 2, 0, false⟩ ⟨100, 1, 0, false⟩ ⟨200, 1, 2, false⟩ = .call 2 (gemv_n.call_2 1 2 ⟨0, 1, 1, 2, 0, false⟩ ⟨100, 1, 0, false⟩ ⟨200, 1, 2, false⟩) := rfl
 
 /-- syrk: row-major 3×2 A into a padded row-major 3×3 C -/
 example : ∃ t cl, Gen.syrk (R := Int) false .lower 1 2 ⟨0, 4, 1, 3, 2, false⟩ ⟨200, 5, 1, 3, 3, false⟩ = .call t cl ∧
-    SyrkHyp ⟨0, 4, 1, 3, 2, false⟩ ⟨200, 5, 1, 3, 3, false⟩ ∧ syrkDom t ⟨0, 4, 1, 3, 2, false⟩ ⟨200, 5, 1, 3, 3, false⟩ :=
-  ⟨1, _, rfl, ⟨by dom_dec, by dom_dec, rfl, rfl, rfl, rfl⟩, by dom_dec⟩
+    SyrkHyp ⟨0, 4, 1, 3, 2, false⟩ ⟨200, 5, 1, 3, 3, false⟩ :=
+  ⟨_, _, rfl, ⟨by simp only [Mat.Lin]; decide, by simp only [Mat.Lin]; decide, rfl, rfl, rfl, rfl, by decide, by decide⟩⟩
+
+/-- herk: conj(A) column-major 3×2 into a row-major 3×3 C -/
+example : ∃ t cl, herk_plain (R := GInt) true .upper 1 ⟨2, 0⟩ ⟨0, 1, 3, 3, 2, true⟩ ⟨200, 3, 1, 3, 3, false⟩ = .call t cl ∧
+    HerkHyp ⟨0, 1, 3, 3, 2, true⟩ ⟨200, 3, 1, 3, 3, false⟩ :=
+  ⟨_, _, rfl, ⟨by simp only [Mat.Lin]; decide, by simp only [Mat.Lin]; decide, rfl, rfl, rfl, by decide, by decide⟩⟩
+
+/-- dot of empty float vectors delivers 0 -/
+example : Front.dotResult 's' (dot_n.call_5 (R := Int) 0 ⟨0, 1, 0, false⟩ ⟨100, 1, 0, false⟩) (fun a => a) = some 0 := by decide
 
 end Multi.C13
